@@ -12,3025 +12,1316 @@ Definition show_fres (r : fres) : string :=
   end.
 Definition check (rs : list rune) : string := digest (show_fres (format_res rs)).
 Definition full (rs : list rune) : string := show_fres (format_res rs).
-Eval vm_compute in ("<<<M3640>>>" ++ check (runes_of_ascii "// top
-options // c0
-{ StringPrefixLenType
-    // c2
-=
-    // c3
-u64 // c4a
-  // c4b
-; // c5
-ArrayPrefixLenType = // c7
-u16 // c8
-; // c9a
-  // c9b
-FixedStringPadChar = // c11
-' ' // c12
-;
-    // c13
-}
-    // c14
-packet // c15a
-  // c15b
-Logon // c16a
-  // c16b
-{ // c17a
-  // c17b
-i32
-    // c18
-msgKind , repeat InOrderid65 { // c23a
-  // c23b
-u8
-    // c24
-pad0 // c25a
-  // c25b
-, // c26
-} , // c28a
-  // c28b
-i8
-    // c29
-tag7 ,
-    // c31
-@leftPad
-    // c32
-( ' ' // c34a
-  // c34b
-)
-    // c35
-char[ // c36a
-  // c36b
-12
-    // c37
-]
-    // c38
-x // c39a
-  // c39b
-, }
-    // c41
-packet // c42a
-  // c42b
-Leg { // c44a
-  // c44b
-char[] // c45
-f1 // c46
-, // c47a
-  // c47b
-repeat
-    // c48
-char[ // c49
-5 // c50
-]
-    // c51
-Px // c52a
-  // c52b
-, // c53
-InQty34 // c54
-{ repeat char[
-    // c57
-6 // c58a
-  // c58b
-] // c59a
-  // c59b
-Qty // c60
-, char[ // c62
-7 // c63
-] // c64
-seqNo // c65
-, string
-    // c67
-count
-    // c68
-, } // c70a
-  // c70b
-, Logon , // c73a
-  // c73b
-} // c74a
-  // c74b
-packet // c75
-Party { @leftPad // c78
-( // c79
-'0'
-    // c80
-) char[
-    // c82
-10 // c83
-] OrderId , // c86
-string Tail // c88
-, // c89a
-  // c89b
-} packet Fill // c92a
-  // c92b
-{
-    // c93
-zchar[ // c94a
-  // c94b
-5 // c95
-] // c96a
-  // c96b
-venue // c97
+Eval vm_compute in ("<<<M1800>>>" ++ check (runes_of_ascii "  options	{
+
+    ArrayPrefixLenType=u16
+	; FixedStringPadFromLeft = true ;
+	JavaPackage =""com.example.msg""
+
+;GoPackage	=
+
+    ""msg""	;
+	GoModule  =
+""example.com/msg""
+	;
+} MetaData
+Meta {u32
+
+    SeqNum`sequence number
+more`
+, char[
+    8
+
+] Symbol `symbol
+more`
+
 , zchar[
-    // c99
-3 // c100
-] // c101
-clOrdID
-    // c102
-, // c103a
-  // c103b
-InRef95 // c104
-{
-    // c105
-InLastpx25
-    // c106
-{ // c107
-u8 pad0 , // c110
-} // c111
-, // c112
-float64 // c113a
-  // c113b
-OrderId // c114a
-  // c114b
-,
-    // c115
-i32 // c116a
-  // c116b
-f1 , // c118
-float32
-    // c119
-x // c120
-, // c121a
-  // c121b
-char[]
-    // c122
-seqNo // c123
-, }
-    // c125
-,
-    // c126
-repeat // c127a
-  // c127b
-string // c128
-seqNo // c129
-, // c130
-} root // c132a
-  // c132b
-packet // c133
-Heartbeat // c134
-{ repeat Leg ,
-    // c138
-u32 seqNo // c140a
-  // c140b
-, // c141
-u16 // c142
-tag7 // c143
-, // c144
-u32 // c145a
-  // c145b
-Flags // c146
-@lengthOf( // c147a
-  // c147b
-Body // c148
-) // c149
-, // c150a
-  // c150b
-match tag7 as // c153a
-  // c153b
-Body
-    // c154
-{ // c155
-[
-    // c156
-195
-    // c157
-, 75 // c159a
-  // c159b
-]
-    // c160
-: Party
-    // c162
-, // c163a
-  // c163b
-171 // c164a
-  // c164b
-: // c165
-Fill // c166a
-  // c166b
-, // c167
-78 // c168
-: // c169
-Logon , // c171a
-  // c171b
-142 : // c173a
-  // c173b
-Leg
-    // c174
-, } // c176
-,
-    // c177
-u32 // c178
-Note @calculatedFrom( // c180
-""CRC32"" // c181
-) // c182a
-  // c182b
-, // c183
-}
-    // c184
-")).
-Eval vm_compute in ("<<<M184>>>" ++ check (runes_of_ascii "MetaData float {
-    lengthOf u128 `tab	here` ,u x ,
-metadata crc `line1
-line2` ,
-} root
-packet//
-trueish { @leftPad (
-'0'
-    ) repeat zchar[ 10 ] lengthOf `u8 x,`
-    ,@leftPad
-// " ++ [27880; 37322]%N ++ runes_of_ascii "
-// trailing space 
-('\x00'	) zchar[ 255 ] tag
-// a // b
-// @lengthOf(
-,
-@leftPad	(
-    ) u128 trueish, chars@lengthOf(
-    i64_
-) `it's` //	t
-,
-    @tag( 10 ) zchar[
-    007 ] asx, char[
-1]
-    zchar,
-// `tick` ""quote"" 'q'
-// trailing space 
-@tag( 7
-    // packet A { u8 x, }
-    ) @calculatedFrom(""packet""
-    )	match  f32a as
-uint8x{
-00  :Header , 007// trailing space 
-: charz ,[ 255 , """ ++ [233]%N ++ runes_of_ascii "t" ++ [233]%N ++ runes_of_ascii """ ] :
-rootA
-    // `tick` ""quote"" 'q'
-    ""it's"" :
-    lengthOf
-,""x y"" :
-pack //x
-,
-""" ++ [28040; 24687]%N ++ runes_of_ascii """
-: _x , } , repeat Header { char[ 7] i8i8 ,char  msg_type @lengthOf(pack ) `line1
-line2`
-,
-// packet A { u8 x, }
-// a // b
-uint8
-crc @lengthOf(
-zchar ) `line1
-line2` ,} , } packet Foo
-    { } packet// @lengthOf(
-Foo { zchar[0123456789
-    ]
-    packetx
-    @calculatedFrom(
-""packet"" // packet A { u8 x, }
-)
-    `doc`  , zchar @calculatedFrom( ""\n""//	t
-)
-`
-` , @leftPad  ( '\x00' )
-    @tag( // trailing space 
-65535 ) char[ 0
-/// triple
-// c
-] metadata@calculatedFrom( ""a\""b"" ), repeat
-    lengthOf{ lengthOf
-`" ++ [233]%N ++ runes_of_ascii "`
-    // `tick` ""quote"" 'q'
-    ,
-} , As , }
-packet BodyLength {//x
-@calculatedFrom( ""a\""b""
-)
-    @lengthOf( x ) @tag( 00
-) Packet zchar
-    `` ,
-@tag(0123456789 )	repeat	char[ 255 ]  x `it's`,// a // b
-u
-// " ++ [128512]%N ++ runes_of_ascii " emoji
-// c
-{ match BodyLength
-as
-// packet A { u8 x, }
-// `tick` ""quote"" 'q'
-tag
-    {3
-: matchKey ,} ,
-} ,@tag( 0123456789 )
-    // " ++ [128512]%N ++ runes_of_ascii " emoji
-    char	asx `line1
-line2`,@lengthOf( chars ) @calculatedFrom(
-""a	b"" )f64 len
-    , match int as //x
-BodyLength { 1
-:
-    Header ,[ 0 ] :// c
-tag
-""" ++ [28040; 24687]%N ++ runes_of_ascii """ :asx, } , @leftPad
-( ' '
-    ) metadata `crlf
-line` ,
-// `tick` ""quote"" 'q'
-// trailing space 
-len
-@lengthOf( metadata
-    ), zchar[  65535 ]
-    A
-@lengthOf( // c
-trueish )
-,@leftPad ( '0'
-)
-repeatCount Z9_
-    `" ++ [233]%N ++ runes_of_ascii "`  ,
-} 	 ")).
-Eval vm_compute in ("<<<M1100>>>" ++ check (runes_of_ascii "options
-{} packet
-    // packet A { u8 x, }
-    packetx {
-crc charz
-``
-    ,leftPad ,
-@tag(3 ) repeat
-uint64  u128 `doc` ,
-@tag(
-    007 )
-// c
-// `tick` ""quote"" 'q'
-Pad roots /// triple
-,
-    @calculatedFrom(// `tick` ""quote"" 'q'
-""CRC32"" ) u8x metadata , @tag( 1 ) zchar[0123456789 ]  i8i8  `a\` , match a1
-as
-As { ""a	b""
-:roots, [
-    ""\" ++ [233]%N ++ runes_of_ascii """ , ""abc"" //
-] :string_ , }  ,
-repeat Header { match
-// " ++ [128512]%N ++ runes_of_ascii " emoji
-// c
-f32a as
-    _x { 4294967296 :
-    // @lengthOf(
-    repeatCount , 7
-//	t
-// @lengthOf(
-:
-    //x
-    u8x
-    , 7 : As ,}// " ++ [128512]%N ++ runes_of_ascii " emoji
-, i64
-repeatCount @lengthOf( a1 ) ,}
-    ,
-// " ++ [128512]%N ++ runes_of_ascii " emoji
-// " ++ [27880; 37322]%N ++ runes_of_ascii "
-} packet
-pack
-{zchar[ // a // b
-0 ] stringy, } /// triple
-root
-packet
-As {
-    // @lengthOf(
-    match // `tick` ""quote"" 'q'
-u8x as packetx //	t
-{
-    7 : uint8x
-65535 :int
-1: T  ,
-    ""{,}""
-    :
-Foo
-    ,  0123456789
-// " ++ [128512]%N ++ runes_of_ascii " emoji
-// @lengthOf(
-: Logon
-    , [ 65535
-// " ++ [27880; 37322]%N ++ runes_of_ascii "
-// `tick` ""quote"" 'q'
-] : len , }
-    ,repeat
-    lengthOf  metadata,@calculatedFrom(""" ++ [233]%N ++ runes_of_ascii "t" ++ [233]%N ++ runes_of_ascii """ ) repeat zchar[65535 ] As
-`doc` , char[// trailing space 
-7 ] float // @lengthOf(
-@calculatedFrom(
-    //
-    """" )
-    , float32 a1`it's`, @tag(
-3	) char[]
-BodyLength// @lengthOf(
-`line1
-line2` , match int as asx{[""" ++ [28040; 24687]%N ++ runes_of_ascii """
-, 0 ] :
-x_y_z , 1 :	Packet , ""{,}""  : falsey,255
-    : charz , [
-    ""{,}"" , 0123456789
-] : uint8x , } ,
-crc @calculatedFrom(
-    ""\" ++ [233]%N ++ runes_of_ascii """
-    // " ++ [128512]%N ++ runes_of_ascii " emoji
-    )`crlf
-line`
-    ,	match packetx
-as Pad { ""packet""://
-BodyLength,} , @lengthOf( BodyLength) @tag(
-// packet A { u8 x, }
-//x
-00
-)@lengthOf( As)match charz  as len {[//x
-""x y""]:_x //x
-""it's"": i64_ , 0123456789: metadata
-// packet A { u8 x, }
-//x
-""" ++ [128512]%N ++ runes_of_ascii """ : trueish, 1: Logon
-, }
-    , } //	t")).
-Eval vm_compute in ("<<<M159>>>" ++ check (runes_of_ascii "MetaData MetaDataX
-    { i8i8 roots
-,	zchar[	65535
-    ]rootA
-`// not a comment`, // a // b
-x_y_z  leftPad
-    //x
-    `u8 x,`, char[] stringy
-// c
-//x
-`it's` ,
-} // packet A { u8 x, }
-packet
-    Foo {
-string	lengthOf , i32 packetx@lengthOf( asx ) `{ , }`
-    ,
-repeat falsey`two words`, char[] roots@calculatedFrom(""" ++ [28040; 24687]%N ++ runes_of_ascii """ // " ++ [128512]%N ++ runes_of_ascii " emoji
-), //
-leftPad// @lengthOf(
-@calculatedFrom( """ ++ [28040; 24687]%N ++ runes_of_ascii """ )`" ++ [233]%N ++ runes_of_ascii "` ,
-    @tag( 42
-)
-zchar[
-65535 ]
-    As @lengthOf( a1
-)
-`doc`
-, } root packet charz{
-    @tag(
-    4294967296
-) string options1
-    `tab	here`
-    // @lengthOf(
-    , }packet leftPad	{ } packet metadata { //	t
-i32	BodyLength
-    @calculatedFrom(
-    ""it's"" ) `say ""hi""`,
-@rightPad //
-(	)
-    // " ++ [128512]%N ++ runes_of_ascii " emoji
-    chars//x
-{
-repeat
-    falsey	{ uint64 tag @lengthOf(
-len )
-, char[ 42]packetx @calculatedFrom(
-//x
-// a // b
-""abc"" )
-, } , Header { zchar[ 00 //x
-] charz
-@calculatedFrom( ""x y"" ) // trailing space 
-, uint8 calculatedFrom @calculatedFrom( ""\n"" // c
-) , trueish `" ++ [28040; 24687; 31867; 22411]%N ++ runes_of_ascii "` , string_ // @lengthOf(
-@calculatedFrom( ""// no comment"" ) // c
-`it's` ,} , string crc ,
-}  , // " ++ [128512]%N ++ runes_of_ascii " emoji
-@calculatedFrom( ""1"" )
-    @calculatedFrom(	""" ++ [28040; 24687]%N ++ runes_of_ascii """
-    // " ++ [27880; 37322]%N ++ runes_of_ascii "
-    ) @tag(7
-// trailing space 
-//
-) i8
-Foo
-// @lengthOf(
-// a // b
-, i8 a1
-//
-//x
-@calculatedFrom( ""{,}"" ) ``
-, repeat falsey	{
-o // c
-@calculatedFrom( ""abc"" ) `
-`  , zchar[42 ] matchKey , }	, i64 As ,
-//	t
-// `tick` ""quote"" 'q'
-repeat As  , repeat
-    int64 string_
-, }
-//	t
-")).
-Eval vm_compute in ("<<<M567>>>" ++ check (runes_of_ascii "options {
-}
-MetaData	x_y_z{
-    string_ packetx ,  metadata// packet A { u8 x, }
-o ,	char[
-3 ]charz
-// a // b
-//x
-, zchar
-charz,}
-MetaData
-    /// triple
-    T{ zchar[
-3 ] len ,u x_y_z	, u64 A ,
-} packet
-zchar  { @tag(
-    4294967296 ) @calculatedFrom( """ ++ [233]%N ++ runes_of_ascii "t" ++ [233]%N ++ runes_of_ascii """ ) @calculatedFrom( ""abc""
-) match tag as  tag
-    {
-    """"
-    :
-    stringy ,
-""" ++ [28040; 24687]%N ++ runes_of_ascii """:
-    // trailing space 
-    f32a ,4294967296 :
-    matchKey ,	0
-: msg_type // " ++ [27880; 37322]%N ++ runes_of_ascii "
-,7 :
-    //	t
-    Logon
-, 7
-//
-// @lengthOf(
-:
-trueish
-,}
-    , roots@calculatedFrom( // @lengthOf(
-""" ++ [233]%N ++ runes_of_ascii "t" ++ [233]%N ++ runes_of_ascii """), BodyLength `" ++ [233]%N ++ runes_of_ascii "` , repeat  int zchar //
-`
-` , @leftPad () body @calculatedFrom(
-    // packet A { u8 x, }
-    """ ++ [233]%N ++ runes_of_ascii "t" ++ [233]%N ++ runes_of_ascii """	),}
-    packet // a // b
-Packet { @lengthOf(
-    uint8x
-    )
-    // @lengthOf(
-    i64_
-    { u128	{
-    stringy , }
-,  }, T MetaDataX
-`u8 x,`
-    , @calculatedFrom("""" ) @lengthOf( // @lengthOf(
-x_y_z )
-    @calculatedFrom( ""1"" ) uint32 charz@calculatedFrom(""`tick`""	) `" ++ [233]%N ++ runes_of_ascii "`
-,
-    // @lengthOf(
-    string
-    u8x	@calculatedFrom( ""\" ++ [233]%N ++ runes_of_ascii """ ) `line1
-line2` //
-,@leftPad (
-    )
-string tag @lengthOf(
-f32a ) `" ++ [233]%N ++ runes_of_ascii "`,@rightPad ( ) @tag(7)  @lengthOf(
-    rootA
-)
-    // " ++ [128512]%N ++ runes_of_ascii " emoji
-    repeat T matchKey , @lengthOf( metadata) zchar[
-    10 ] _x @lengthOf( a1 // a // b
-) , @leftPad(
-) f32a o `{ , }`
-    ,
-}
-// packet A { u8 x, }
-")).
-Eval vm_compute in ("<<<M4267>>>" ++ check (runes_of_ascii "
+5 ]
 
-  // @lengthOf(
+ZSym `z symbol
+more`,string Note  , 
+Symbol 
+AltSymbol
+
+    `alias of symbol`
+,f64	Price,} 
+packet	Inner 
+{
+	u8 
+a 
+,
+    i16 b,
+
+string c	,
+	}packet	Inner2	{ u8 a2
+, char[
+3 ] 
+c2 , } packet  Logon 
+{
+    u8
+x
+
+    , string	user
+, repeat
+u16
+    codes , 
+}
 	packet
+Logout { u16
+reason
+	,
 
-BodyLength {char	T
+    }  packet Empty{
+    }
 
-    ,
+root	packet
 
-    } root
-	packet	A  {  repeat  len
-`say ""hi""` ,
-repeat	Pad {
-repeat
-char[] 	 // " ++ [128512]%N ++ runes_of_ascii " emoji
-    stringy , repeat
+Msg{ u8 su8 
+,
 
-rootA
-	{ 
+    uint8 luint8
+	,
+    u16
+su16
+	,  uint16 
+luint16
+	,
+u32
+	su32,uint32 
+luint32
+, u64 su64  , 
 uint64
-	Foo	@lengthOf( // `tick` ""quote"" 'q'
-      options1
-    )  // @lengthOf(
-    `it's`, 
-    //x
-	  /// triple
+luint64,
+i8
+si8
 
-zchar {  zchar[
-	42 ]Z9_
+    , 
+int8
+lint8
+	, i16	si16 ,int16
+lint16 
+,
+	i32	si32,int32 lint32
+, i64	si64 , int64 lint64
+	,
+f32 sf32
 
-,  repeat o
-	i8i8
+,  float32 lfloat32
 
-    , uint8 
-x `it's`
-, rootA
-	Foo
+    ,f64
 
-`{ , }`
-,},
-}  , metadata
-@calculatedFrom( ""a	b""
-    )
-    ,
-}
-, @tag(
-	1	) string
-	// c
-  u 
-`doc`
+sf64  ,
+float64
+    lfloat64 
+,
+    char[
 
-    //	t
-  , u
-@calculatedFrom(
-    ""it's""
-)	``
+    6  ]
+fsplain
+	,@leftPad( '0'
+) char[4
+]fs0 ,@rightPad
+    ('0'
+)
+char[5 ]
+fs1	,
+    @leftPad
 
-    ,
-	char[
-	7 ]
-
-    packetx	@lengthOf(
-A
+(
+' ' 
 )
 
-    `{ , }`
-	, 
-string
-_x`
-`
+char[ 
+6
+
+    ]  fs2
+, @rightPad  ( ' '  ) char[	7  ] fs3
+
+    ,
+    @leftPad
+
+    (
+	'\x00' 
+)
+char[8 
+]fs4 ,  @rightPad(
+    '\x00'
+    )char[ 9
+
+]  fs5, @leftPad(
+) char[
+10
+
+] fs6
 
 ,
-	float32
 
-_x, repeat
+@rightPad( ) 
 char[
 
-42] rootA	`doc`
-
-    , }  MetaData
-	matchKey { zchar[ 0123456789
-
-] falsey
-
-``,
-
-    } packet Logon	{
-    @lengthOf(	zchar
-)
-match
-
-    leftPad
-	as	falsey
-{
-    3 :
-
-Packet	,007: 	 // `tick` ""quote"" 'q'
-
-	zchar
-1 
-:	// @lengthOf(
-    	float	,
-
-    ""it's"" : body ""CRC32"" 
-    // " ++ [128512]%N ++ runes_of_ascii " emoji
-      :body  } ,
-@calculatedFrom(
-
-""{,}""
-) zchar[ 1
-
+    11
 ]
-	i8i8 
-@lengthOf(
-uint8x	)
+	fs7 ,zchar[
 
-    ,
-    zchar[ 00
-
-]
-    // `tick` ""quote"" 'q'
-	a1 ,uint64
-    u
-,string Packet
-
-    @calculatedFrom( 
-""packet""
-
-) ,
-	} ")).
-Eval vm_compute in ("<<<M598>>>" ++ check (runes_of_ascii "
-packet o
-    // packet A { u8 x, }
-    { @tag(
-42 )	@tag( 7) @rightPad ( ' ' ) match i8i8 as rootA {// trailing space 
-[	""1""
-,
-1]:  crc , }
-    ,
-    i16
-    u8x/// triple
-@calculatedFrom(
-""\" ++ [233]%N ++ runes_of_ascii """ ), pack @calculatedFrom(
-""a	b"" ),repeat f32
-calculatedFrom ,zchar[ 00 ]  calculatedFrom , u8
-trueish`doc`, zchar[ 0123456789] int @calculatedFrom( ""packet"" )//x
-, } options { packetx =//
-""CRC32"" ;  } root packet matchKey {match Header as T {[ ""abc""
-,
-    """ ++ [233]%N ++ runes_of_ascii "t" ++ [233]%N ++ runes_of_ascii """]  : f32a 00	:calculatedFrom,00
-: _x } ,
-    char[]
-pack`{ , }` ,
-    u32
-BodyLength
-    ,	@leftPad
-( )
-    @lengthOf(
-o )
-    @lengthOf( MetaDataX ) rootA
-    { match int
-as Logon
-    { [ 3
-]:
-    f32a  ,} , zchar //x
-@lengthOf( a1
-)
-, }
-,// packet A { u8 x, }
-@calculatedFrom( ""{,}"" // " ++ [128512]%N ++ runes_of_ascii " emoji
-)
-    repeat BodyLength
-    { match Pad
-// @lengthOf(
-//x
-as charz {
-""x y"" :lengthOf  ,
-},repeat Foo
-{zchar[0
-    ] Header `" ++ [28040; 24687; 31867; 22411]%N ++ runes_of_ascii "` , } , char[ 7// " ++ [128512]%N ++ runes_of_ascii " emoji
-] packetx `// not a comment` , a1 @calculatedFrom(
-    ""1"" ) ,}
-,
-    @leftPad()
-zchar[ // c
-65535 ] u128 `say ""hi""` , } root// " ++ [128512]%N ++ runes_of_ascii " emoji
-packet int {	@leftPad (	'0' ) repeat char Packet
-, } 	 ")).
-Eval vm_compute in ("<<<M618>>>" ++ check (runes_of_ascii "
-options { i64_ = int16; } packet
-    // @lengthOf(
-    crc
-{ @tag(
-0123456789)
-    // a // b
-    repeat
-crc
-{ char[ 1]	As @lengthOf(//
-repeatCount) ,}, } root packet
-falsey
-{ repeat
-repeatCount	{repeat Header {
-calculatedFrom float `u8 x,` , } //
-,
-string u8x @lengthOf( zchar)
-,	char[ 255]
-    Foo , // " ++ [27880; 37322]%N ++ runes_of_ascii "
-} // `tick` ""quote"" 'q'
-,	@lengthOf( Z9_ ) packetx , /// triple
-repeat
-    // " ++ [128512]%N ++ runes_of_ascii " emoji
-    string
-BodyLength
-    , @rightPad ( ' '
-)
-crc @calculatedFrom( // c
-""\n"") , repeat options1
-{ match Z9_
-as A { 0 :
-    matchKey ,	[ 00,
-    10 ,
-    0,
-    """ ++ [233]%N ++ runes_of_ascii "t" ++ [233]%N ++ runes_of_ascii """ ]
-    : zchar ,	""1"" : trueish ,""abc"" :
-metadata ,
-    255
-    : matchKey
-    ,
-    },packetx @calculatedFrom( ""a\""b"" ) `
-` , // packet A { u8 x, }
-} , @tag(
-    0
-    )i32 A	, @calculatedFrom(  ""{,}"" ) @tag(
-    3
-    )
-    As ,
-    repeat f64 zchar`// not a comment`// a // b
-,
-}  packet rootA  {  @leftPad
-(	'0')
-trueish stringy`{ , }` , @calculatedFrom( ""{,}"" ) @tag( 3 )  u64	Pad@calculatedFrom( ""a	b"" ),uint16 _x @lengthOf(int) ``
-,
-    }MetaData
-    int{ }
-")).
-Eval vm_compute in ("<<<M4217>>>" ++ check (runes_of_ascii "options {
-    StringPrefixLenType = u64;
-    ArrayPrefixLenType = u16;
-    FixedStringPadChar = ' ';
-}
-
-packet Logon {
-    i32 msgKind,
-    repeat InOrderid65 {
-        u8 pad0,
-    },
-    i8 tag7,
-    @leftPad(' ')
-    char[12] x,
-}
-
-packet Leg {
-    char[] f1,
-    repeat char[5] Px,
-    InQty34 {
-        repeat char[6] Qty,
-        char[7] seqNo,
-        string count,
-    },
-    Logon,
-}
-
-packet Party {
-    @leftPad('0')
-    char[10] OrderId,
-    string Tail,
-}
-
-packet Fill {
-    zchar[5] venue,
-    zchar[3] clOrdID,
-    InRef95 {
-        InLastpx25 {
-            u8 pad0,
-        },
-        float64 OrderId,
-        i32 f1,
-        float32 x,
-        char[] seqNo,
-    },
-    repeat string seqNo,
-}
-
-root packet Heartbeat {
-    repeat Leg,
-    u32 seqNo,
-    u16 tag7,
-    u32 Flags @lengthOf(Body),
-    match tag7 as Body {
-        [195, 75] : Party,
-        171 : Fill,
-        78 : Logon,
-        142 : Leg,
-    },
-    u32 Note @calculatedFrom(""CR\
-    C32""),
-}")).
-Eval vm_compute in ("<<<M407>>>" ++ check (runes_of_ascii "// a // b
-packet// a // b
-o
-{ body
-// trailing space 
-// `tick` ""quote"" 'q'
-{ repeat string Z9_ ,
-    match roots as A
-{ [""" ++ [28040; 24687]%N ++ runes_of_ascii """,0
-,00
-    ,
-0 ,	00 ,
-65535 ]
-:
-// c
-//x
-T } , }
-    , @calculatedFrom( ""\" ++ [233]%N ++ runes_of_ascii """  ) repeat asx{uint8  x_y_z
-,
-}
-,  f64  Header
-`line1
-line2` ,}options {
-    f32a	=
-    // c
-    7  ; packetx = 0123456789 u8x = """"
-    ;
-    } // a // b
-root packet stringy { Foo @calculatedFrom(  ""abc""
-    )
-    `
-`, @lengthOf( pack) repeat
-    u8x{ f32
-    zchar ,
-    //x
-    uint32 Z9_`tab	here`	,	leftPad {
-msg_type @lengthOf(BodyLength )
-,
-repeat int8 T, string_ uint8x, match trueish as A{
-[
-""a	b"" ,
-""a\\""
-] : // packet A { u8 x, }
-trueish
-, [ ""a\\"",42,
-""it's""
-    ,
-00, """ ++ [128512]%N ++ runes_of_ascii """] :  msg_type , ""a\\""
-    : Z9_
-/// triple
-/// triple
-, ""it's"" : // `tick` ""quote"" 'q'
-T , ""\" ++ [233]%N ++ runes_of_ascii """ : As [4294967296, ""x y""
-, 3 //
-, ""abc"", // packet A { u8 x, }
-""1""
-, """ ++ [233]%N ++ runes_of_ascii "t" ++ [233]%N ++ runes_of_ascii """
-    , 42	, ""\n""
-    ]
-: matchKey
-,
-}, }
-, }
-, }
-")).
-Eval vm_compute in ("<<<M3651>>>" ++ check (runes_of_ascii "options
-
-{
-	LittleEndian=
-false 
-;	FixedStringPadFromLeft
-
-=  false
-;
-FixedStringPadChar 
-= ' '
-	;
-    }
-    packet 
-Fill
-
-    {
-uint16	Qty ,uint64 clOrdID
-,repeat
-i64
-Flags
-
-    ,
-}
-packet	Ack {
-	zchar[
 7
 
-]clOrdID,
+    ] 
+fz  ,
 
-    u64
+    @leftPad( '0'	)	zchar[	3
+    ] 
+fzl0 ,
+string
+s1	`doc`
+,
+    char[]
+s2
+    ,
 
-    lastPx ,
-    char[]	Note
-, repeat Fill,
-int32 count
-, } packet
+    Inner
+	, Sub
 
-Quote{
+{
+u8
+q,string  w  , 
+Deep{
+    u16 
+z
+
+    , repeat i32
+zs, }  ,
+
+}
+
+,repeat
 
     u8
-
-venue
-
-,
-    InRef40{
-char[] Qty
-
-,
-
-},zchar[  5 ] 
-Flags
-	, @rightPad  (	'\x00'  ) 
-char[12  ] msgKind
-,
-}  packet Logout {InSym79 {
-int32 Qty	,
-
-    Fill
-
-, char[ 3
-	]  x 
-,repeat
-InNote29 
-{i16 price
-
-, 
-Ack 
-,	f64
-	x
-,
-zchar[ 8 ]	count
-
-    ,
-}
-
-    ,	}
-,
-} root
-packet
-    Logon
-{ 
-zchar[
-1
-] sym
-	,	u32
-count
-
-    ,
-	u16 tag7 
-@lengthOf(
-    Body
-)
-,
-match count
-
-    as
-Body
-{
-    [
-    122 ,152]
-    :  Ack	,118
-
-: Logout
-
-,
-    61
-	:
-Quote
-	,  161
-
-    : Fill , }
-
-,u32
-
-Acct@calculatedFrom(
-    ""CRC32""
-
-)  ,
-
-} ")).
-Eval vm_compute in ("<<<M795>>>" ++ check (runes_of_ascii "packet
-    roots { @calculatedFrom(
-    ""1"")
-repeat char f32a , zchar[
-// " ++ [128512]%N ++ runes_of_ascii " emoji
-// `tick` ""quote"" 'q'
-42
-/// triple
-// " ++ [128512]%N ++ runes_of_ascii " emoji
-] options1
-`
-` ,
-/// triple
-// " ++ [27880; 37322]%N ++ runes_of_ascii "
-@calculatedFrom( """ ++ [233]%N ++ runes_of_ascii "t" ++ [233]%N ++ runes_of_ascii """ ) float64 uint8x `say ""hi""`  , packetx
-    //	t
-    @lengthOf( BodyLength	)  `a\`  ,	@calculatedFrom( ""\" ++ [233]%N ++ runes_of_ascii """ ) chars u8x	`{ , }`
-, match _x as len {
-    42 : crc, 4294967296 // packet A { u8 x, }
-: uint8x ,  10 : BodyLength,
-    } //
-,@tag(0 )
-    // @lengthOf(
-    char[ 7] // trailing space 
-metadata,
-    /// triple
-    @tag( 4294967296
-)
-    match BodyLength
-as  chars { ""`tick`"":
-x_y_z
-    , 42
-    //x
-    : x_y_z ,0123456789: x },
-char[
-7 ] rootA`" ++ [28040; 24687; 31867; 22411]%N ++ runes_of_ascii "` ,}
-    packet string_ { @calculatedFrom(
-    """ ++ [128512]%N ++ runes_of_ascii """)@lengthOf( f32a
-    // packet A { u8 x, }
-    ) @lengthOf( Pad ) repeat
-    //	t
-    pack i64_
-`line1
-line2`,	}
-")).
-Eval vm_compute in ("<<<M4384>>>" ++ check (runes_of_ascii "packet x {
-    u16 msg_type @lengthOf(BodyLength),// trailing space 
-    @calculatedFrom(""" ++ [28040; 24687]%N ++ runes_of_ascii """)
-    repeat Header {
-        char[0123456789] repeatCount,
-        zchar[7] i64_ @calculatedFrom(""" ++ [28040; 24687]%N ++ runes_of_ascii """),
-        repeat T zchar `tab	here`,
-    },
-    uint8 body `doc`,
-    repeat char[] i8i8,
-    uint32 f32a @calculatedFrom(""`tick`""),
-    @rightPad(' ')
-    match rootA as matchKey {
-        42 : lengthOf,
-        // `tick` ""quote"" 'q'
-        ""// no comment"" : Z9_,
-        [""a\\"", 1] : len,
-        10 : trueish,
-    },
-    f64 Logon @lengthOf(T) `crlf
-    line`,
-    match float as i8i8 {
-        ""\n"" : i64_,
-    },
-    @lengthOf(u8x)
-    // trailing space 
-    @leftPad('\x00')
-    char[007] body `it's`,
-    @leftPad('0')
-    string crc @calculatedFrom(""a\\"") `" ++ [28040; 24687; 31867; 22411]%N ++ runes_of_ascii "`,
-}")).
-Eval vm_compute in ("<<<M4319>>>" ++ check (runes_of_ascii "
-MetaData	As
-	{ }packet
-float	{	// @lengthOf(
-    options1
-
-Pad  `// not a comment` ,
-uint16 
-As
-`line1
-line2`
-
-,
-	float32
-    stringy 
-@calculatedFrom(
-	""`tick`""
-)
-`" ++ [233]%N ++ runes_of_ascii "`
-
-    ,
-
-    repeat 
-Packet { zchar[  3
-    ]
-	T 
-@calculatedFrom( ""x y""
-
-    )
-	,char[  7 
-]
-asx
-@lengthOf(tag 
-)
-, 
-
-    //
-  int64
-    charz  `u8 x,` ,} ,
-
-    uint32
-
-len	,
-	@tag(
-	0123456789
-    ) Foo
-
-    packetx
-    `// not a comment` 
-,char[]  trueish@lengthOf(rootA
-) ,	@leftPad  (	//
-	'0' ) 
-repeat
-    x_y_z `{ , }`  , i64 u128
-
-    ,}
-packet
-
-msg_type 	 //x
-
-	{char[]
-
-i8i8	`doc`  //	t
-	, string 
-trueish
-
-@calculatedFrom( 
-""""
-    )
-, 
-char[ 7
-
-    ]	/// triple
-		string_ 	 // packet A { u8 x, }
-    `say ""hi""` 
-/// triple
-//
-
-,  } ")).
-Eval vm_compute in ("<<<M3711>>>" ++ check (runes_of_ascii "
-root 
-packet	o
-    {  a1 a1	, 
-char[ 3
-    ]	i8i8
-    `
-`
-    ,  @calculatedFrom(
-""a\""b""
-)	// packet A { u8 x, }
-repeat  /// triple
-  Pad  ,} 
-
-    // `tick` ""quote"" 'q'
-    // `tick` ""quote"" 'q'
-	packet 
-tag {
-i8i8  @calculatedFrom( ""x y""
-
-)
-`it's`  ,
-
-@lengthOf(x_y_z)
-    @calculatedFrom( 
-    //
-		//	t
-	""a\""b""
-
-)u
-
-{ 
-match	a1
-    as  Logon{
-""\n""
-    : Pad ,
-
-    3  : body
-
-    , """" :  // `tick` ""quote"" 'q'
-Logon
-
-    ,	""\n""	:	T
-    ,  ""`tick`"":	tag ,[
-
-    """ ++ [233]%N ++ runes_of_ascii "t" ++ [233]%N ++ runes_of_ascii """/// triple
-,	7	,""a\""b""
-
-    , 0123456789
-
-    , ""abc""	,
-
-    """ ++ [28040; 24687]%N ++ runes_of_ascii """ , 0 ] :Z9_
-
-    }	, char[ 00] 	 //
-string_ @lengthOf(
-asx )
-,char[ 1 
-]falsey , 
-} ,	match
-
-crc 
-as
-
-lengthOf {  4294967296
-: a1  } ,}
-")).
-Eval vm_compute in ("<<<M4342>>>" ++ check (runes_of_ascii "root packet A {
-    @tag(42)
-    match Logon as rootA {
-        0123456789 : int,
-    },
-    repeat char[] uint8x `crlf
-        line`,
-    int {
-        // `tick` ""quote"" 'q'
-        //
-        repeat f64 Packet,
-        uint8x @calculatedFrom(""1""),
-        string x `it's`,
-    },
-    @lengthOf(Foo)
-    @calculatedFrom(""a	b"")
-    @lengthOf(body)
-    metadata {
-        match pack as matchKey {
-            ""x y"" : falsey,
-            ""it's"" : Header,
-        },
-        body {
-            char[] len,/// triple
-        },
-    },
-    char[0123456789] T @calculatedFrom(""`tick`""),
-}
-
-options {
-    len = ' '
-}
-
-MetaData As {
-    f64 As,
-    char[0123456789] x,
-}")).
-Eval vm_compute in ("<<<M3977>>>" ++ check (runes_of_ascii "MetaData
-pack{ } // trailing space 
-    MetaData u { zchar[
-
-    7
-    ]
-lengthOf  `say ""hi""`,
-
-} 
-packet  // trailing space 
-
-	metadata {
-	@leftPad	()
-stringy chars,
-
-    repeat  int{
-uint8
-A ,
-    zchar[
-4294967296
-
-    ]Packet
-
-@lengthOf(
-x
-    )  `
-`
-	,
-repeat
-    crc
-	zchar 
-,
-} 
-	    // " ++ [128512]%N ++ runes_of_ascii " emoji
-
-//x
-    ,
-repeat options1{ u16 u
-,
-	string_ { string_
-MetaDataX 
-,
-    repeat 
-char[ 0123456789 ]
-uint8x , repeat
-    uint32 T,
-
-// packet A { u8 x, }
-
-//x
-	} ,
-    uint16
-    packetx ,
-    }
-    // packet A { u8 x, }
-  // `tick` ""quote"" 'q'
-    , @leftPad (
-
-    ' '
-    )rootA
-
-`crlf
-line`,	} 
-    // " ++ [27880; 37322]%N)).
-Eval vm_compute in ("<<<M3584>>>" ++ check (runes_of_ascii "// top
-packet // c0a
-  // c0b
-A { // c2
-u8 // c3a
-  // c3b
-a , } // c6a
-  // c6b
-packet // c7a
-  // c7b
-B // c8
-{ // c9a
-  // c9b
+    ru8 ,	repeat
 u16
-    // c10
-b // c11a
-  // c11b
-, // c12a
-  // c12b
-}
-    // c13
-root // c14a
-  // c14b
-packet // c15
-P
-    // c16
-{
-    // c17
-u8 // c18
-K // c19
-, // c20a
-  // c20b
-match
-    // c21
-K
-    // c22
-as // c23a
-  // c23b
-M // c24
-{ // c25
-[
-    // c26
-1 // c27a
-  // c27b
-, // c28
-2
-    // c29
-]
-    // c30
-: A // c32a
-  // c32b
-, // c33a
-  // c33b
-3 :
-    // c35
-B , // c37a
-  // c37b
-7 // c38a
-  // c38b
-: // c39a
-  // c39b
-A
-    // c40
-, } , } // c44a
-  // c44b
-")).
-Eval vm_compute in ("<<<M1274>>>" ++ check (runes_of_ascii "packet charz // @lengthOf(
-{ // packet A { u8 x, }
-repeat float64 chars , }root
-packet
-    //x
-    repeatCount  { @rightPad( '\x00'	) Header
-    // a // b
-    i64_
-    ,
-} MetaData calculatedFrom { u8x
-Z9_
-`a\`	,  } packet string_ { @tag(0123456789 ) repeat o `` , //	t
-len	@lengthOf( roots
-    ) ,@calculatedFrom( ""1""
-)	@calculatedFrom(""it's""
-)
-    uint64 Packet@lengthOf( T )
-    , body ,
-    match matchKey as MetaDataX{[
-    // packet A { u8 x, }
-    7 , 42	]	:
-    stringy
-, } , } root
-packet A
-// a // b
-// a // b
-{ @calculatedFrom(""a\""b"" )	int8 packetx ,	}
-")).
-Eval vm_compute in ("<<<M1017>>>" ++ check (runes_of_ascii "packet
-f32a {	roots
-{chars  calculatedFrom,
-u16 Header`" ++ [233]%N ++ runes_of_ascii "`
-/// triple
-// packet A { u8 x, }
-,char[] repeatCount , //	t
-} , @calculatedFrom( ""x y"" )
-    i32 crc
-@calculatedFrom(
-""x y"" ),repeat uint64 lengthOf
-    ,repeat char[
-    65535]  u
-, @lengthOf(
-tag)
-// trailing space 
-//
-@lengthOf( pack) @calculatedFrom(  ""packet"" ) // packet A { u8 x, }
-match A as
-f32a
-    {
-// trailing space 
-// c
-""`tick`""
-:
-    i8i8 ,
-    }
-, @tag(
-0123456789
-    ) repeat repeatCount
-crc  ,
-    repeat	u32  options1
-`a\` , }  options { matchKey ='0' ;	}")).
-Eval vm_compute in ("<<<M4157>>>" ++ check (runes_of_ascii "
-options
-{ StringPrefixLenType =
-u8
-
-;
-
-ArrayPrefixLenType
-= 
-u32 ; } packet Quote
-{
-    u32
-
-    Ref, InNote74	{ u8 
-pad0 
-,  }  ,
-}packet  Ack
-{repeat
-
-    string
-OrderId 
-,
-    }
-    packet
-Logout
-    {zchar[
-7 
-]venue , 
-char[ 12
-
-    ]
-Px
-,
-
-    string
-
-    count
-	,  char[]
-Tail
-    ,	char[]	Qty
-	,
-	Quote
-, }
-root
-packet Trade
-	{
-	zchar[
-
-    2 ]
-
-    price ,
-    u32
-	x
-
-    ,
+ru16
+	,  repeat
 u32
+ru32
 
-lastPx
-	@lengthOf(Body)	,
+    ,
 
-    match x
-	as
+repeat
 
-Body {148 :
-    Ack,
+u64 ru64
 
-171 : 
-Quote
+,repeat
+i8  ri8
+,
+    repeat
+i16
+ri16
+,repeat	i32
+ri32
+    ,
+	repeat i64
+	ri64 , repeat 
+f32
+    rf32
 
-, 15	:  Logout,} ,	}
+,
+repeat
+f64 rf64,
+    repeat
+string
+rstr	, repeat
+char[]	rstr2
+    ,repeat  char[
+3
+	]
+	rfs ,
+repeat
+zchar[ 3] rfz ,repeat
+	Inner2,
+
+repeat  Grp	{ u8
+    k, 
+char[ 2
+] v
+
+    ,
+	}
+,
+
+SeqNum  ,
+SeqNum
+    seq2,
+	repeat
+    SeqNum	seqs,Symbol, AltSymbol
+	alt ,
+    ZSym ,
+	Note,
+    repeat
+Symbol
+	syms
+
+    ,
+
+Price px	, u16
+	MsgType
+
+,
+
+u32 BodyLen
+@lengthOf(  Body
+
+    ), match MsgType
+
+as 
+Body
+    {1	: 
+Logon
+    ,
+
+    [
+2
+,3] : Logout	,
+    7 :
+Logon	,
+9
+    : 
+Empty, } ,
+	u32 Checksum@calculatedFrom( 
+""CRC32""  )
+	,
+	}
 ")).
-Eval vm_compute in ("<<<M4241>>>" ++ check (runes_of_ascii "root packet i8i8 {
-    BodyLength `" ++ [28040; 24687; 31867; 22411]%N ++ runes_of_ascii "`,
-    Header,
-    int16 len @lengthOf(msg_type) `
-    `,
-    @leftPad(' ')
-    @rightPad()
-    // trailing space 
-    @calculatedFrom(""x y"")
-    repeatCount @calculatedFrom(""packet"") `crlf
-    line`,
-    @lengthOf(falsey)
-    roots @lengthOf(metadata) `line1
-    line2`,
-    i8 i64_,
-    @tag(4294967296)
-    @tag(3)
-    repeat zchar[1] lengthOf,
-    @lengthOf(Logon)
-    repeat asx {
-        stringy float `line1
-        line2`,
-        Pad,
-    },
-}")).
-Eval vm_compute in ("<<<M3846>>>" ++ check (runes_of_ascii "options {
-    As = u16
-    body = char[]
+Eval vm_compute in ("<<<M1586>>>" ++ check (runes_of_ascii "
+// top
+
+  options  // c0
+{  // c1a
+    // c1b
+StringPrefixLenType
+    // c2
+		=  // c3a
+    // c3b
+u8// c4a
+		// c4b
+    ; ArrayPrefixLenType 	 // c6
+  =  // c7
+
+u32  // c8
+; 
+    // c9
+} packet
+    Quote	// c12
+    {	// c13
+
+  u32// c14a
+
+  // c14b
+    Ref
+
+    ,// c16a
+	// c16b
+  InNote74	{	// c18
+    u8 pad0  // c20a
+  // c20b
+      ,// c21
+    } 
+      // c22
+		, 
 }
 
-MetaData options1 {
+packet
+    // c25
+    Ack
+{
+
+repeat 
+string
+// c29
+	OrderId	// c30
+	, // c31
+  }// c32
+
+packet	// c33a
+	  // c33b
+  	Logout// c34
+  {
+	// c35
+	  zchar[	// c36a
+  // c36b
+
+7 
+
+    // c37
+  ] 
+
+// c38
+	venue
+	,  // c40a
+
+// c40b
+char[// c41
+	  12 	 // c42
+  ] 	 // c43a
+
+  // c43b
+	Px ,
+
+// c45
+	string// c46
+  count  // c47a
+		// c47b
+    , 
+    // c48
+    char[] // c49
+	  Tail // c50a
+  // c50b
+    ,// c51
+char[]Qty	// c53
+
+	, // c54
+
+Quote // c55
+    	,	// c56
+
+} 	 // c57
+
+	root  // c58a
+  // c58b
+	packet
+	Trade 
+    // c60
+  { 	 // c61a
+	// c61b
+  zchar[  
+      // c62
+  2  // c63a
+// c63b
+
+	]// c64a
+  	// c64b
+
+price 	 // c65
+
+	,
+
+    // c66
+  u32
+	// c67
+x
+	,	u32	// c70
+    lastPx 
+    // c71
+    @lengthOf( 	 // c72
+  Body // c73a
+      // c73b
+	) 
+	// c74
+,	// c75a
+    // c75b
+	match  // c76a
+  	// c76b
+		x	as
+
+    // c78
+Body// c79
+	{  // c80
+  	148:	// c82
+Ack	// c83a
+
+  // c83b
+    	,  // c84
+
+171	// c85a
+	// c85b
+:
+// c86
+	  Quote// c87
+  , 15
+	// c89
+      :
+	// c90
+Logout 	 // c91a
+// c91b
+    , 
+    // c92
+    } 
+        // c93
+,// c94
+  } 
+
+// c95
+")).
+Eval vm_compute in ("<<<M232>>>" ++ check (runes_of_ascii "packet falsey { int64
+BodyLength , @tag( 4294967296) // packet A { u8 x, }
+@leftPad (
+    )
+match _x as Foo
+//	t
+// packet A { u8 x, }
+{ ""\n"": asx
+// `tick` ""quote"" 'q'
+// `tick` ""quote"" 'q'
+[ ""{,}""
+,	4294967296, """ ++ [128512]%N ++ runes_of_ascii """//	t
+, """ ++ [28040; 24687]%N ++ runes_of_ascii """,
+""packet"", ""packet""
+    // " ++ [27880; 37322]%N ++ runes_of_ascii "
+    , ""x y"" ,
+// trailing space 
+// " ++ [128512]%N ++ runes_of_ascii " emoji
+7 ]	: x_y_z	, } , // `tick` ""quote"" 'q'
+A len`// not a comment`
+    ,
     //
-    zchar[1] T `{ , }`,
-    stringy BodyLength,
-    uint16 matchKey,//	t
-    char[255] _x,
-    o o `a\`,
+    repeat char[]
+i64_ `crlf
+line` ,
+// trailing space 
+// trailing space 
+repeat char[] u `line1
+line2`	, tag {string metadata ,
+    } ,
+// " ++ [27880; 37322]%N ++ runes_of_ascii "
+// " ++ [128512]%N ++ runes_of_ascii " emoji
+char[3
+    ] falsey @lengthOf(
+    leftPad ) `crlf
+line`
+,  } root	packet
+MetaDataX {@lengthOf( //
+u8x )
+    match f32a as Header {[ ""a\""b""
+//x
+// `tick` ""quote"" 'q'
+,255]:  u8x , ""packet""
+:
+uint8x
+    ,""1""
+:
+_x , },
+    Packet `doc` , zchar[
+    3 // " ++ [128512]%N ++ runes_of_ascii " emoji
+] u128 @lengthOf( asx  ) ,
+    }  MetaData x/// triple
+{
+// `tick` ""quote"" 'q'
+// `tick` ""quote"" 'q'
+As  roots , char[
+10	] crc
+// " ++ [128512]%N ++ runes_of_ascii " emoji
+/// triple
+`{ , }` ,
+    BodyLength
+asx  `u8 x,` ,matchKey i8i8 , falsey pack `" ++ [233]%N ++ runes_of_ascii "`,leftPad metadata ,
+    }
+options { pack	= 0 tag
+= f32 i64_ =""abc""	;
+// " ++ [128512]%N ++ runes_of_ascii " emoji
+// " ++ [128512]%N ++ runes_of_ascii " emoji
+f32a=
+    true ; } packet Foo { }
+")).
+Eval vm_compute in ("<<<M1688>>>" ++ check (runes_of_ascii "options {
+    chars = ' '
 }
 
-packet chars {
-    f32a {
-        repeat a1,
-        repeat charz x_y_z,
-        asx,
-        rootA len `crlf
-        line`,
-    },// " ++ [27880; 37322]%N ++ runes_of_ascii "
+root packet string_ {
+    i8i8 @lengthOf(Z9_),
+    match int as chars {
+        007 : body,
+        [42] : int,
+        ""`tick`"" : options1,
+    },
+    @leftPad(' ')
+    uint16 crc `it's`,// a // b
+    float64 packetx @lengthOf(crc),
+    @tag(4294967296)
+    match int as chars {
+        4294967296 : Foo,
+        1 : asx,
+        10 : Pad,
+        0123456789 : string_,
+        3 : T,
+        ""it's"" : As,
+    },
+    repeat float falsey `say ""hi""`,
+    match uint8x as zchar {
+        ""// no comment"" : body,
+        0123456789 : crc,
+        ""{,}"" : o,
+    },
+    repeat o chars,
+    uint32 As `doc`,
+    repeat trueish {
+        char[7] i64_ `{ , }`,
+    },
 }
 
-root packet Header {
-    string float `
-    `,//	t
+packet Packet {
+    zchar[0123456789] matchKey @lengthOf(chars),
+    x {
+        u64 o,
+    },
+    zchar[1] MetaDataX @calculatedFrom(""""),
+    char[] lengthOf @calculatedFrom(""a\""b"") `
+    `,
+    @rightPad(' ')
+    //	t
+    uint16 len `a\`,
+    @lengthOf(tag)
+    char[65535] pack ``,
+}")).
+Eval vm_compute in ("<<<M1992>>>" ++ check (runes_of_ascii "options {
+    T = ' '
+}
+
+MetaData Pad {
+    string_ u128,
+    u64 uint8x `two words`,
+    int8 repeatCount,
+}
+
+packet len {
+    Packet `
+    `,
+    @calculatedFrom(""a\""b"")
+    zchar[42] rootA,
+    @calculatedFrom(""packet"")
+    @calculatedFrom(""\n"")
+    Packet @calculatedFrom(""\" ++ [233]%N ++ runes_of_ascii """) `" ++ [28040; 24687; 31867; 22411]%N ++ runes_of_ascii "`,
+    @leftPad('\x00')
+    @leftPad()
+    @rightPad()
+    repeat string_ {
+        match asx as rootA {
+            [""`tick`"", 65535] : falsey,
+        },
+        trueish,
+        char Z9_ `// not a comment`,
+        Packet Logon `{ , }`,
+    },
+    @tag(1)
+    match x as pack {
+        1 : stringy,
+        [42] : x,
+    },
+    repeat i8 u8x,
+    @calculatedFrom(""packet"")
+    string_ @lengthOf(rootA),
+    falsey @lengthOf(x),
 }
 
 options {
-    T = false
-    options1 = ""packet""
-    matchKey = zchar[00];
-    string_ = false;
+}
+
+root packet u {
+    @lengthOf(x_y_z)
+    u @calculatedFrom("""") `two words`,
 }")).
-Eval vm_compute in ("<<<M4604>>>" ++ check (runes_of_ascii "
-packet  chars { }root
-
-    packet  chars
-    { zchar[ 	 // @lengthOf(
-	00  ]
-lengthOf  `" ++ [28040; 24687; 31867; 22411]%N ++ runes_of_ascii "` 
-,  }
-root
-	packet
-	tag {@rightPad('\x00')
-zchar[ 3]
-	Foo
-    @lengthOf( pack ) ,zchar[ 10
-]
-	tag
-, repeat
-
-    uint32
-int, 
-@rightPad
-
-( '\x00')
-	@lengthOf(
-f32a) @rightPad
-    //
-
-//x
-    ( ' ') Packet  int ,
-	match 
-
-//	t
-      len// " ++ [27880; 37322]%N ++ runes_of_ascii "
-      as
-i8i8 { 10  : chars  ,
-},
-@calculatedFrom(""x y"")
-	Z9_
-	@calculatedFrom(""it's""
-)
-
-    ,}//	t
-")).
-Eval vm_compute in ("<<<M3634>>>" ++ check (runes_of_ascii "
-options
-
-{ LittleEndian=  true
-;
-
-StringPrefixLenType=  u16 ;
-
-ArrayPrefixLenType
-    =
-u64 
-;	} packet	Fill {  }
-
-packet  Logon 
-{	repeat  char[
-	3
-] Tail ,
-
-    zchar[6 ]venue, 
-repeat string  Side2
-    ,  }	root 
-packet
-Cancel{char[] Flags , char[] OrderId
-,
-
-    zchar[
-6
-]	msgKind , Fill , char[]
-    Acct ,  u8	f1 ,  match f1
-    as	Body
-    {  188:
-    Fill,5 
-:Logon,
-}, 
-u32
-clOrdID@calculatedFrom(
-
-""CRC32"" ) ,
-
-}")).
-Eval vm_compute in ("<<<M4415>>>" ++ check (runes_of_ascii "packet options1 {
-    repeat zchar[7] i8i8,
-    _x {
-        zchar[65535] i8i8 @lengthOf(uint8x),
-        match x_y_z as lengthOf {
-            //x
-            [
-                00, 1, 10, ""\" ++ [233]%N ++ runes_of_ascii """, 42,
-                00
-            ] : Pad,
-            [4294967296] : asx,
-            0123456789 : x_y_z,
-        },
-        zchar[0] float,
+Eval vm_compute in ("<<<M1550>>>" ++ check (runes_of_ascii "options {
+    LittleEndian = false;
+    StringPrefixLenType = u8;
+    ArrayPrefixLenType = u8;
+    FixedStringPadFromLeft = true;
+    FixedStringPadChar = ' ';
+}
+packet Trade {
+    zchar[2] Side2,
+    i8 seqNo,
+}
+packet Party {
+    uint32 price,
+}
+packet Ack {
+    @rightPad('\x00') char[6] x,
+    repeat char[4] Flags,
+    zchar[9] f1,
+}
+packet Cancel {
+    Ack,
+}
+packet Heartbeat {
+    string Px,
+    string Acct,
+    f64 Side2,
+    InQty24 {
+        i16 seqNo,
+        repeat i32 Flags,
     },
-    int16 T @lengthOf(charz) ``,
+}
+root packet Logon {
+    Trade,
+    i64 venue,
+    u32 x,
+    u8 seqNo,
+    match seqNo as Body {
+        [1, 164] : Ack,
+        31 : Cancel,
+        23 : Heartbeat,
+        64 : Party,
+    },
+}
+")).
+Eval vm_compute in ("<<<M1610>>>" ++ check (runes_of_ascii "MetaData As {
+}
+
+packet float {
+    // @lengthOf(
+    options1 Pad `// not a comment`,
+    uint16 As `line1
+        line2`,
+    float32 stringy @calculatedFrom(""`tick`"") `" ++ [233]%N ++ runes_of_ascii "`,
+    repeat Packet {
+        zchar[3] T @calculatedFrom(""x y""),
+        char[7] asx @lengthOf(tag),
+        //
+        int64 charz `u8 x,`,
+    },
+    uint32 len,
+    @tag(0123456789)
+    Foo packetx `// not a comment`,
+    char[] trueish @lengthOf(rootA),
+    @leftPad('0')
+    repeat x_y_z `{ , }`,
+    i64 u128,
+}
+
+packet msg_type {
+    char[] i8i8 `doc`,
+    string trueish @calculatedFrom(""""),
+    char[7] string_ `say ""hi""`,
+}")).
+Eval vm_compute in ("<<<M1580>>>" ++ check (runes_of_ascii "// top
+packet // c0
+Sub // c1a
+  // c1b
+{
+    // c2
+u8 a ,
+    // c5
+@calculatedFrom( // c6a
+  // c6b
+""CRC16"" )
+    // c8
+u16 // c9
+SubSum // c10
+, }
+    // c12
+root packet // c14
+Frame // c15
+{
+    // c16
+u16 // c17a
+  // c17b
+MsgType
+    // c18
+, // c19
+u16
+    // c20
+BodyLen @lengthOf(
+    // c22
+Body // c23a
+  // c23b
+) , Sub // c26a
+  // c26b
+Body
+    // c27
+,
+    // c28
+string // c29
+note , // c31
+@calculatedFrom( ""CRC16"" // c33
+) u16 // c35a
+  // c35b
+Checksum // c36
+,
+    // c37
+u8 tail
+    // c39
+,
+    // c40
+} ")).
+Eval vm_compute in ("<<<M1879>>>" ++ check (runes_of_ascii "  packet
+	string_
+	{ @lengthOf(
+    int )BodyLength 
+u8x	,  i64_ `tab	here`
+        // " ++ [128512]%N ++ runes_of_ascii " emoji
+	// @lengthOf(
+  ,
+	char[
+3
+
+]	/// triple
+    string_
+
+,repeat
+
+    leftPad `" ++ [28040; 24687; 31867; 22411]%N ++ runes_of_ascii "`,
+repeat  int32
+/// triple
+
+// `tick` ""quote"" 'q'
+  	BodyLength
+    `u8 x,` , 	 // `tick` ""quote"" 'q'
+  	@tag(	4294967296 )
+    BodyLength 
+`crlf
+line`
+    , 
+msg_type
+Packet
+`" ++ [233]%N ++ runes_of_ascii "` ,float32
+    string_	// trailing space 
+  	@calculatedFrom(
+	""""
+)	,
+asx  int`it's`  ,
+}
+")).
+Eval vm_compute in ("<<<M2082>>>" ++ check (runes_of_ascii "root packet x {
+    @calculatedFrom(""a\\"")
+    zchar[42] float @calculatedFrom(""a\""b"") `
+        `,
+}
+
+MetaData o {
+    int8 BodyLength,
+    string len,
+    string len,
+    float falsey,
+    T float,
 }
 
 MetaData pack {
-    int64 chars,
-}")).
-Eval vm_compute in ("<<<M4380>>>" ++ check (runes_of_ascii "  packet Packet
-{
-@tag(	4294967296) charz { 
-repeat char[
-    0123456789 ] 
-BodyLength
-, repeat 
-trueish stringy
-    ,
-}
-	, }
-options 
-{
-	body
-=  char  ;
-
-leftPad  = 
-uint16 
-//	t
-;
-stringy =
-	true ;
-	packetx 
-=
-
-true 
-        // `tick` ""quote"" 'q'
-	//
-
-	float
-
-=
-
-    char[ 255 ]
-
-    }
-	    // `tick` ""quote"" 'q'
-/// triple
-
-  root	packet
-
-len 
-{ @leftPad
-
-( '0'
-	)uint64	a1
-
-,
-
-}
-
-")).
-Eval vm_compute in ("<<<M3810>>>" ++ check (runes_of_ascii "MetaData MetaDataX {
-    i64_ leftPad,
-    zchar[7] u8x `" ++ [28040; 24687; 31867; 22411]%N ++ runes_of_ascii "`,
-    zchar[00] crc `crlf
-    line`,
-    char[255] zchar,
-    u32 x `tab	here`,
-    i64_ falsey `it's`,
-}
-
-MetaData A {
-    char[7] calculatedFrom `two words`,
-    asx asx `tab	here`,
-    float64 trueish,
-    zchar[42] f32a `tab	here`,
-    char[] u128,
-}
-
-packet uint8x {
-    @tag(1)
-    repeat char[] Packet,
-}// c")).
-Eval vm_compute in ("<<<M309>>>" ++ check (runes_of_ascii "options // " ++ [27880; 37322]%N ++ runes_of_ascii "
-{charz
-    =
-/// triple
-/// triple
-int64 chars // trailing space 
-=
-65535
-// " ++ [27880; 37322]%N ++ runes_of_ascii "
-// a // b
-zchar =
-'\x00'MetaDataX// a // b
-=	0123456789
-roots
-// trailing space 
-// " ++ [27880; 37322]%N ++ runes_of_ascii "
-= """" } options {crc // c
-=""" ++ [28040; 24687]%N ++ runes_of_ascii """
-    ;
-    } MetaData	float {
-    zchar[ 42
-// `tick` ""quote"" 'q'
-//
-]
-leftPad
-    `line1
-line2` ,
-i64_ u,float32 // packet A { u8 x, }
-A`" ++ [28040; 24687; 31867; 22411]%N ++ runes_of_ascii "` , }")).
-Eval vm_compute in ("<<<M1300>>>" ++ check (runes_of_ascii "packet
-Foo	{ @lengthOf(options1
-    // trailing space 
-    )  zchar[ 255
-] matchKey , string i64_// " ++ [128512]%N ++ runes_of_ascii " emoji
-,  @lengthOf( len ) char
-Z9_ // " ++ [27880; 37322]%N ++ runes_of_ascii "
-`" ++ [233]%N ++ runes_of_ascii "`
-,
-// `tick` ""quote"" 'q'
-// a // b
-char[7 ]metadata @calculatedFrom( ""a\\"")`doc`
-    ,
-falsey ,@rightPad (
-'\x00'  )u64 rootA`crlf
-line`
-//x
-// " ++ [128512]%N ++ runes_of_ascii " emoji
-, @calculatedFrom( ""it's""
-    ) f64 i64_ ,}")).
-Eval vm_compute in ("<<<M829>>>" ++ check (runes_of_ascii "options {	msg_type = 007 ; //
-u8x =""`tick`""}// @lengthOf(
-packet body { match o as
     /// triple
-    options1
-    {
-//
-//x
-""{,}"" :// trailing space 
-x_y_z 7
-:
-Foo,4294967296
-: len
-, ""// no comment""
-: i64_,	} , @lengthOf(
-matchKey
-)repeat
-u32 x_y_z `say ""hi""` , } MetaData a1 {// a // b
-options1 options1	`doc` , }
-// " ++ [128512]%N ++ runes_of_ascii " emoji
-")).
-Eval vm_compute in ("<<<M1916>>>" ++ check (runes_of_ascii "MetaData
-    u { }  options {
-// c
-// @lengthOf(
-float = int8 ;rootA =false false ; As =	int16 // `tick` ""quote"" 'q'
-repeatCount
-    // trailing space 
-    =
-    int16
-; u8x =
-    //	t
-    '\x00' ; } options	{
-    repeatCount
-= 0
-u128
-    //
-    = false ; i64_
-// trailing space 
-// `tick` ""quote"" 'q'
-= '0' ; //	t
-}
-")).
-Eval vm_compute in ("<<<M633>>>" ++ check (runes_of_ascii "root packet BodyLength {u16
-    tag @calculatedFrom(""packet""
-)// packet A { u8 x, }
-, u8 i8i8 ,
-repeat float64
-    string_`u8 x,` , } MetaData
-stringy
-    {	repeatCount
-    a1 ,
-    // " ++ [27880; 37322]%N ++ runes_of_ascii "
-    char[ 0123456789 ] u128 `doc` //	t
-,
-    u16 _x , i64
-pack
-    ,
-i64
-BodyLength `say ""hi""`, zchar[ 255
-    ]
-Z9_
-    ,}
-")).
-Eval vm_compute in ("<<<M2072>>>" ++ check (runes_of_ascii "MetaData
-    u { }  options {
-// c
-// @lengthOf(@x
-float = int8 ;rootA =false ; As =	int16 // `tick` ""quote"" 'q'
-repeatCount
-    // trailing space 
-    =
-    int16
-; u8x =
-    //	t
-    '\x00' ; } options	{
-    repeatCount
-= 0
-u128
-    //
-    = false ; i64_
-// trailing space 
-// `tick` ""quote"" 'q'
-= '0' ; //	t
-}
-")).
-Eval vm_compute in ("<<<M1922>>>" ++ check (runes_of_ascii "MetaData
-    u { }  options {
-// c
-// @lengthOf(
-float = int8 ;rootA =false As ; =	int16 // `tick` ""quote"" 'q'
-repeatCount
-    // trailing space 
-    =
-    int16
-; u8x =
-    //	t
-    '\x00' ; } options	{
-    repeatCount
-= 0
-u128
-    //
-    = false ; i64_
-// trailing space 
-// `tick` ""quote"" 'q'
-= '0' ; //	t
-}
-")).
-Eval vm_compute in ("<<<M3625>>>" ++ check (runes_of_ascii "
-options
-    {
-LittleEndian
-
-    = 
-true; StringPrefixLenType
-    =
-
-u8
-; 
-ArrayPrefixLenType
-=
-    u8 
-; }
+    charz o `// not a comment`,
+    float64 f32a `tab	here`,
+    int32 u8x `// not a comment`,
+    char[10] a1,
+    float32 options1,
+}// `tick` ""quote"" 'q'")).
+Eval vm_compute in ("<<<M1454>>>" ++ check (runes_of_ascii "// top
 packet
-Ack
-
-{
-	}	root
-packet	Quote
-{
-Ack	,
-	InSym94 { repeat
-
-Ack
-, } ,
-    u16  msgKind ,
-u16 OrderId
-
-    @lengthOf(
-	Body 
-),match
-    msgKind	as
-
-    Body
-{
-	[110	, 48
-]
-:
-
-Ack
-
-,}
+    // c0
+B // c1a
+  // c1b
+{ u8 // c3
+a // c4a
+  // c4b
+, }
+    // c6
+root // c7
+packet
+    // c8
+P
+    // c9
+{ // c10
+u8 // c11
+K // c12
 ,
-}")).
-Eval vm_compute in ("<<<M3670>>>" ++ check (runes_of_ascii "
-
-  options
-{ LittleEndian= true ; 
-}packet
-
-    Sub
-
-    {
-u8 
-a ,	@calculatedFrom(
-	""CRC16"") 
-u64
-    SubSum
-,
-    }
-	root packet  Frame
-
-    {u16
-    MsgType 
-,
-
-u16
-
-BodyLen
-
-    @lengthOf( 
-Body	)
-, Sub
-
-Body , 
-string	note ,
-
-    @calculatedFrom(""CRC16""
-)u64
-Checksum  ,	u8
-	tail
-
-    ,  }
-
+    // c13
+u8
+    // c14
+L // c15a
+  // c15b
+@lengthOf( Body
+    // c17
+) ,
+    // c19
+match
+    // c20
+K as Body {
+    // c24
+1 // c25
+: B ,
+    // c28
+} // c29a
+  // c29b
+, // c30
+}
+    // c31
 ")).
-Eval vm_compute in ("<<<M949>>>" ++ check (runes_of_ascii "MetaData
-    T
-//x
-// trailing space 
-{ char[]	metadata, } MetaData
-    a1
-{ charz
-float , i32 i8i8`say ""hi""` ,} packet pack {MetaDataX	, f64 calculatedFrom , zchar[3 ]
-    // a // b
-    T//
-@calculatedFrom(
-    """ ++ [233]%N ++ runes_of_ascii "t" ++ [233]%N ++ runes_of_ascii """) `doc` ,A {i16 charz,char[ //
-0123456789 ]crc `" ++ [28040; 24687; 31867; 22411]%N ++ runes_of_ascii "` , char[]
-string_ , } , // a // b
+Eval vm_compute in ("<<<M1709>>>" ++ check (runes_of_ascii "MetaData T {
+    Foo lengthOf,
+    string packetx `// not a comment`,
+    zchar[0] metadata `crlf
+        line`,
+    x string_ `line1
+        line2`,
+}
+
+packet repeatCount {
+    char[255] A @calculatedFrom(""a\\""),
+    float32 BodyLength @lengthOf(_x) `doc`,
+    char[] trueish @calculatedFrom(""packet""),
 }")).
-Eval vm_compute in ("<<<M4584>>>" ++ check (runes_of_ascii "  packet	// packet A { u8 x, }
-
-As {
-    @leftPad ( '\x00'
-    // @lengthOf(
-    )	repeat 
+Eval vm_compute in ("<<<M61>>>" ++ check (runes_of_ascii "options
+{  chars =
+    /// triple
+    char; o
+    /// triple
+    = true u128 =
+    ""x y"" ;} packet	chars
+    { @calculatedFrom( ""\n"" )repeat f64 packetx  ,  @tag(4294967296 ) float32 Header
+, zchar[
+007
+]float `// not a comment`
+    ,
+    }
+options  {
+stringy = zchar[ 7 ] ;}")).
+Eval vm_compute in ("<<<M534>>>" ++ check (runes_of_ascii "root packet tag { }  packet MetaDataX{char[007	]
+// c
+/// triple
+asx asx  @calculatedFrom( ""a\""b""
+) `say ""hi""`// " ++ [27880; 37322]%N ++ runes_of_ascii "
+,  @tag(4294967296 )
+    char[1//x
+] packetx @calculatedFrom(""a\""b""
+    ) ,
 // " ++ [128512]%N ++ runes_of_ascii " emoji
-    //
-pack  ,
-} 
-MetaData 	 //x
-    leftPad
-{	uint8 tag
-,i16
-    BodyLength  /// triple
+// a // b
+@calculatedFrom(""" ++ [233]%N ++ runes_of_ascii "t" ++ [233]%N ++ runes_of_ascii """  ) repeat pack // " ++ [27880; 37322]%N ++ runes_of_ascii "
+,
+    } // c")).
+Eval vm_compute in ("<<<M2054>>>" ++ check (runes_of_ascii "options {
+    // " ++ [128512]%N ++ runes_of_ascii " emoji
+    x = i8
+    BodyLength = '\x00';
+    options1 = zchar[42];
+    msg_type = ""a	b""
+    x_y_z = int64;
+}//x
 
-  `{ , }`
-	,zchar[
-    1
-	]	u`say ""hi""`
+options {
+    pack = ""a\\""
+    matchKey = true
+    Packet = ""abc""//	t
+    falsey = '\x00';
+}
 
-    , u16 charz ,
+root packet charz {
+    body `doc`,
+}// c")).
+Eval vm_compute in ("<<<M530>>>" ++ check (runes_of_ascii "root packet tag { }  packet MetaDataX{char[007	asx
+// c
+/// triple
+]  @calculatedFrom( ""a\""b""
+) `say ""hi""`// " ++ [27880; 37322]%N ++ runes_of_ascii "
+,  @tag(4294967296 )
+    char[1//x
+] packetx @calculatedFrom(""a\""b""
+    ) ,
+// " ++ [128512]%N ++ runes_of_ascii " emoji
+// a // b
+@calculatedFrom(""" ++ [233]%N ++ runes_of_ascii "t" ++ [233]%N ++ runes_of_ascii """  ) repeat pack // " ++ [27880; 37322]%N ++ runes_of_ascii "
+,
+    } // c")).
+Eval vm_compute in ("<<<M583>>>" ++ check (runes_of_ascii "root packet tag { }  packet MetaDataX{char[007	]
+// c
+/// triple
+asx  @calculatedFrom( ""a\""b""
+) `say ""hi""`// " ++ [27880; 37322]%N ++ runes_of_ascii "
+,  @tag(4294967296 )
+    char[//x
+] packetx @calculatedFrom(""a\""b""
+    ) ,
+// " ++ [128512]%N ++ runes_of_ascii " emoji
+// a // b
+@calculatedFrom(""" ++ [233]%N ++ runes_of_ascii "t" ++ [233]%N ++ runes_of_ascii """  ) repeat pack // " ++ [27880; 37322]%N ++ runes_of_ascii "
+,
+    } // c")).
+Eval vm_compute in ("<<<M563>>>" ++ check (runes_of_ascii "root packet tag { }  packet MetaDataX{char[007	]
+// c
+/// triple
+asx  @calculatedFrom( ""a\""b""
+) `say ""hi""`// " ++ [27880; 37322]%N ++ runes_of_ascii "
+,  4294967296 )
+    char[1//x
+] packetx @calculatedFrom(""a\""b""
+    ) ,
+// " ++ [128512]%N ++ runes_of_ascii " emoji
+// a // b
+@calculatedFrom(""" ++ [233]%N ++ runes_of_ascii "t" ++ [233]%N ++ runes_of_ascii """  ) repeat pack // " ++ [27880; 37322]%N ++ runes_of_ascii "
+,
+    } // c")).
+Eval vm_compute in ("<<<M2017>>>" ++ check (runes_of_ascii "
+packet
+	Sub {  u8  a,
 
-    u32 packetx , rootA //
+    @calculatedFrom(	""CRC16""
+) u16 SubSum,  }
+	root  packet  Frame{
+u16 MsgType
+	,	u16
+    BodyLen
+    @lengthOf( Body
+)
+    , 
+Sub
+
+Body ,
+string
+	note,@calculatedFrom(  ""CRC16"" ) 
+u16
+Checksum  ,u8
+
+tail ,
+    } ")).
+Eval vm_compute in ("<<<M1540>>>" ++ check (runes_of_ascii "options {
+    StringPrefixLenType = u16;
+    FixedStringPadChar = ' ';
+}
+packet Party {
+}
+packet Quote {
+    repeat Party,
+    repeat char[2] f1,
+}
+packet Logon {
+}
+root packet Cancel {
+    uint16 x,
+    zchar[6] f1,
+}
+")).
+Eval vm_compute in ("<<<M1852>>>" ++ check (runes_of_ascii "
+MetaData msg_type
+	{
+Packet 
+	    // @lengthOf(
+    // trailing space 
+
+int
+,
+	char[3
+	]
+Foo	`// not a comment` 
+
+// `tick` ""quote"" 'q'
+
+  , zchar[ 7
+
+    ]uint8x  ,	leftPad
+	crc `
+`
+    , }
+")).
+Eval vm_compute in ("<<<M1605>>>" ++ check (runes_of_ascii "MetaData 
+msg_type {  }
+	root packet	T {	@rightPad	( )repeat
+
+char[  3
+
+] x_y_z  ,
+@lengthOf(
+
+roots )
+string
+    i64_@lengthOf( u8x  // a // b
+    )  `// not a comment`
+
+    ,  }")).
+Eval vm_compute in ("<<<M1302>>>" ++ check (runes_of_ascii "// top
+MetaData // c0
 body
+    // c1
+{
+    // c2
+i64
+    // c3
+pack `it's`
+    // c5
+, } packet stringy // c9
+{ // c10
+int16
+    // c11
+calculatedFrom ,
+    // c13
+} // c14
+")).
+Eval vm_compute in ("<<<M467>>>" ++ check (runes_of_ascii "packet
+    // `|tick` ""quote"" 'q'
+    crc
+// packet A { u8 x, }
+//	t
+{
+u32 a1 ,
+    // trailing space 
+    roots
+charz //
+`two words`,	}
+    MetaData int {
+} /// triple")).
+Eval vm_compute in ("<<<M688>>>" ++ check (runes_of_ascii "root packet len // trailing space 
+{
+// " ++ [27880; 37322]%N ++ runes_of_ascii "
+//	t
+char[10
+] metadata	@lengthOf( o ) `crlf
+line`,
+    @rightPad
+( ' '
+) string
+    Header @calculatedFrom( ""a\\""
+    )( }
+")).
+Eval vm_compute in ("<<<M249>>>" ++ check (runes_of_ascii "
+root packet /// triple
+Foo { int32 tag
+    `doc` , char[0
+    ]
+    u8x`u8 x,`
+, charz charz
+    , @rightPad(' ')@tag( 3 ) @rightPad	('0' )
+repeat
+int16	float ,}
+")).
+Eval vm_compute in ("<<<M439>>>" ++ check (runes_of_ascii "packet
+    // `tick` ""quote"" 'q'
+    crc
+// packet A { u8 x, }
+//	t
+{
+u32 a1 ,
+    // trailing space 
+    roots
+charz //
+`two words`,	}
+     int {
+} /// triple")).
+Eval vm_compute in ("<<<M1847>>>" ++ check (runes_of_ascii "
+root  packet matchKey
+
+{ zchar[ 3
+	] pack
+	@calculatedFrom(
+    ""a	b"")
+
+`doc`
+
+    // c
 
 , }
-")).
-Eval vm_compute in ("<<<M3600>>>" ++ check (runes_of_ascii "  packet
-
-    MDSnapshotZZ
-
+options 
 {
 
-u8  a
-	,
-
+    } 
+MetaData A  {
+int8 msg_type , 
 }
-	packet OrderACK
-    {
-u16 b	, 
-} 
-packet
-	HTTPServerInfo	{
-
-    string
-s ,
-
-    }
-
-root packet FIXMsg{
-u8 KType,  MDSnapshotZZ ,
-
-    repeat OrderACK,
-
-    match KType
-	as	Body{  1 :
-HTTPServerInfo
-
-,
-	2 :
-    OrderACK  ,}
-    ,}
-
 ")).
-Eval vm_compute in ("<<<M92>>>" ++ check (runes_of_ascii "options
-    {
-    u8x =zchar[ 42 ] ;
-roots = """ ++ [233]%N ++ runes_of_ascii "t" ++ [233]%N ++ runes_of_ascii """	; calculatedFrom
-= '0' As =
-    ""packet"" ; } options	{falsey=  10
-    ; A=
-// c
-// packet A { u8 x, }
-'\x00' ; leftPad// c
-=	""" ++ [233]%N ++ runes_of_ascii "t" ++ [233]%N ++ runes_of_ascii """
-    ;
-    crc
-//	t
-// c
-= u16
-// `tick` ""quote"" 'q'
-// @lengthOf(
-;As
-= 255 } /// triple")).
-Eval vm_compute in ("<<<M3606>>>" ++ check (runes_of_ascii "
+Eval vm_compute in ("<<<M1831>>>" ++ check (runes_of_ascii "
+packet	B  {
 
-  packet P1 {
-	u8
-	a ,
-} packet
-	P2  {P1 ,  }packet
-    P3{ P2,
+u8 
+a ,  } root
+packet P
 
-P1 , }
-packet P4
-{  repeat
+{ u8
+    K
+    , u8
+L
+    @lengthOf(
 
-P3,P2 ,
-    } root packet
-	P5 { P4,
-
-P3 
-, P1, 
-u8
-
-K
-
+    Body	)
 ,
+
     match
+
 K
+as
+Body	{ 1
+: 
+B
 
-    as
-
-    Body
-{
-
-    4
-
-    : 
-P4
-,	3 :
-    P3  ,  2 
-:
-P2
-
-    ,	1
-:P1  ,
-	} ,}
-")).
-Eval vm_compute in ("<<<M3924>>>" ++ check (runes_of_ascii "packet Logon {
-    match repeatCount as trueish {
-        1 : int,
-        [
-            """ ++ [28040; 24687]%N ++ runes_of_ascii """, 65535, ""{,}"", 10, 42,
-            007
-        ] : body,
-        [""CRC32"", ""x y""] : T,
-        // packet A { u8 x, }
-        [42] : a1,
-        7 : chars,
-    },
-}")).
-Eval vm_compute in ("<<<M1555>>>" ++ check (runes_of_ascii "packet
-//	t
-// trailing space 
-_x {
-// packet A { u8 x, }
-// c
-char[
-3
-    ] u8x @lengthOf(
-u8x ) , @calculatedFrom(""" ++ [128512]%N ++ runes_of_ascii """ // @lengthOf(
-i16
-i16	Foo
-@lengthOf(	string_
-    )`doc`	, repeat	i64 metadata , @lengthOf( string_
-) i8 // c
-u  `line1
-line2`	,
-}
-")).
-Eval vm_compute in ("<<<M636>>>" ++ check (runes_of_ascii "packet// packet A { u8 x, }
-As { @leftPad ( '\x00'
-    // @lengthOf(
-    )
-repeat
-// " ++ [128512]%N ++ runes_of_ascii " emoji
-//
-pack,
-    } MetaData //x
-leftPad { uint8	tag ,
-i16 BodyLength /// triple
-`{ , }` , zchar[ 1	] u `say ""hi""`, u16 charz ,
-u32 packetx
 ,
-rootA//
-body ,
-}")).
-Eval vm_compute in ("<<<M1619>>>" ++ check (runes_of_ascii "packet
-//	t
-// trailing space 
-_x {
-// packet A { u8 x, }
-// c
-char[
-3
-    ] u8x @lengthOf(
-u8x ) , @calculatedFrom(""" ++ [128512]%N ++ runes_of_ascii """ // @lengthOf(
-)
-i16	Foo
-@lengthOf(	string_
-    )`doc`	, repeat	i64 metadata , @lengthOf( )
-string_ i8 // c
-u  `line1
-line2`	,
-}
-")).
-Eval vm_compute in ("<<<M2029>>>" ++ check (runes_of_ascii "MetaData
-    u { }  options {
-// c
-// @lengthOf(
-float = int8 ;rootA =false ; As =	int16 // `tick` ""quote"" 'q'
-repeatCount
-    // trailing space 
-    =
-    int16
-; u8x =
-    //	t
-    '\x00' ; } options	{
-    repeatCount
-= 0
-u128
-    //
-    = false")).
-Eval vm_compute in ("<<<M1640>>>" ++ check (runes_of_ascii "packet
-//	t
-// trailing space 
-_x {
-// packet A { u8 x, }
-// c
-char[
-3
-    ] u8x @lengthOf(
-u8x ) , @calculatedFrom(""" ++ [128512]%N ++ runes_of_ascii """ // @lengthOf(
-)
-i16	Foo
-@lengthOf(	string_
-    )`doc`	, repeat	i64 metadata , @lengthOf( string_
-) i8 // c
-u  @tag(	,
-}
-")).
-Eval vm_compute in ("<<<M4336>>>" ++ check (runes_of_ascii "root packet roots {
-}// `tick` ""quote"" 'q'
-
-MetaData As {
-    string u `{ , }`,
-    zchar[3] x_y_z,
-    i32 roots,
-    u16 rootA `line1
-        line2`,
-    // `tick` ""quote"" 'q'
-    // a // b
-    i32 matchKey `doc`,
-    u _x `{ , }`,
-}")).
-Eval vm_compute in ("<<<M4196>>>" ++ check (runes_of_ascii "packet zchar {
-    // c
+	}
+,  } ")).
+Eval vm_compute in ("<<<M2027>>>" ++ check (runes_of_ascii "packet Foo {
 }
 
-MetaData Header {
-    Z9_ pack,
-}
-
-MetaData asx {
-    //	t
-    u Header,
-    zchar[3] o,
-    As repeatCount `" ++ [28040; 24687; 31867; 22411]%N ++ runes_of_ascii "`,
-    //	t
-    //	t
-    rootA tag `u8 x,`,
-    float64 options1,
-    char[] uint8x,
-}")).
-Eval vm_compute in ("<<<M3989>>>" ++ check (runes_of_ascii "packet _x {
-    // packet A { u8 x, }
-    // c
-    char[3] u8x @lengthOf(u8x),
-    @calculatedFrom(""" ++ [128512]%N ++ runes_of_ascii """)
-    i16 Foo @lengthOf(string_) `doc`,
-    repeat metadata,
-    @lengthOf(string_)
-    i8 u `line1
-        line2`,
-}")).
-Eval vm_compute in ("<<<M4227>>>" ++ check (runes_of_ascii "
-
-  MetaData
-    u8x
-    { i64_  u128
-	`tab	here`,  char[]
-
-    asx
-    ,
-u 	 // packet A { u8 x, }
-	BodyLength	,
-
-    u64
-uint8x,
-_x  rootA	//x
-	,
-
-} MetaData  trueish
-{	float64 asx	// c
-
-,  /// triple
-		}")).
-Eval vm_compute in ("<<<M1840>>>" ++ check (runes_of_ascii "options { trueish = ""`tick`"" ; string_= """ ++ [233]%N ++ runes_of_ascii "t" ++ [233]%N ++ runes_of_ascii """
-    // c
-    } root
-    packet body { stringy @calculat'\x01'edFrom(
-""a	b"" ) `line1
-line2` , }
-packet Logon {
-    @leftPad(
-    ' ' ) //	t
-u16 string_ `u8 x,` ,
-}
-")).
-Eval vm_compute in ("<<<M1772>>>" ++ check (runes_of_ascii "options { trueish = ""`tick`"" ; string_= """ ++ [233]%N ++ runes_of_ascii "t" ++ [233]%N ++ runes_of_ascii """
-    // c
-    } root
-    packet body { stringy @calculatedFrom(
-""a	b"" ) `line1
-line2` , } }
-packet Logon {
-    @leftPad(
-    ' ' ) //	t
-u16 string_ `u8 x,` ,
-}
-")).
-Eval vm_compute in ("<<<M1678>>>" ++ check (runes_of_ascii "options trueish { = ""`tick`"" ; string_= """ ++ [233]%N ++ runes_of_ascii "t" ++ [233]%N ++ runes_of_ascii """
-    // c
-    } root
-    packet body { stringy @calculatedFrom(
-""a	b"" ) `line1
-line2` , }
-packet Logon {
-    @leftPad(
-    ' ' ) //	t
-u16 string_ `u8 x,` ,
-}
-")).
-Eval vm_compute in ("<<<M1813>>>" ++ check (runes_of_ascii "options { trueish = ""`tick`"" ; string_= """ ++ [233]%N ++ runes_of_ascii "t" ++ [233]%N ++ runes_of_ascii """
-    // c
-    } root
-    packet body { stringy @calculatedFrom(
-""a	b"" ) `line1
-line2` , }
-packet Logon {
-    @leftPad(
-    ' ' ) //	t
-string_ u16 `u8 x,` ,
-}
-")).
-Eval vm_compute in ("<<<M1811>>>" ++ check (runes_of_ascii "options { trueish = ""`tick`"" ; string_= """ ++ [233]%N ++ runes_of_ascii "t" ++ [233]%N ++ runes_of_ascii """
-    // c
-    } root
-    packet body { stringy @calculatedFrom(
-""a	b"" ) `line1
-line2` , }
-packet Logon {
-    @leftPad(
-    ' ' ) //	t
- string_ `u8 x,` ,
-}
-")).
-Eval vm_compute in ("<<<M1701>>>" ++ check (runes_of_ascii "options { trueish = ""`tick`"" ; = """ ++ [233]%N ++ runes_of_ascii "t" ++ [233]%N ++ runes_of_ascii """
-    // c
-    } root
-    packet body { stringy @calculatedFrom(
-""a	b"" ) `line1
-line2` , }
-packet Logon {
-    @leftPad(
-    ' ' ) //	t
-u16 string_ `u8 x,` ,
-}
-")).
-Eval vm_compute in ("<<<M1374>>>" ++ check (runes_of_ascii "root
-// a // b
-// c
-packet	i8i8 { }packet roots { // trailing space 
-f64 uint8x ,@lengthOf(
-    lengthOf // c
-) roots @calculatedFrom( // a // b
-""" ++ [128512]%N ++ runes_of_ascii """ )  `{ , }` //x
-, i32 falsey,
-    //
-    }
-")).
-Eval vm_compute in ("<<<M4295>>>" ++ check (runes_of_ascii "options
-
-{	// " ++ [27880; 37322]%N ++ runes_of_ascii "
-
-	i64_ //x
-
-	=""1"" }
-    options
-
-{matchKey
-	=65535 Header
-    =""x y""
-    stringy
-
-    = 
-//	t
-// a // b
-	true
-
-    ;
-    }	MetaData int { i8i8
-charz
-`u8 x,`
-	,
-}
-
-")).
-Eval vm_compute in ("<<<M224>>>" ++ check (runes_of_ascii "root
-packet Logon	{/// triple
-@calculatedFrom(
-    ""`tick`"" ) @rightPad ( ' '  )
-    @tag(
-    42 ) //	t
-char[ 3 ]
-trueish  @lengthOf(
-matchKey
-    // @lengthOf(
-    ) `" ++ [233]%N ++ runes_of_ascii "` ,}
-")).
-Eval vm_compute in ("<<<M4108>>>" ++ check (runes_of_ascii "
-MetaData	trueish {o
-	charz`tab	here`	,
-
-    }  MetaData  int
-{
-    zchar[
-4294967296 ] 
-a1
-`say ""hi""`
-	,  }
-
-options {charz 
-    //	t
-  =
-
-'0'
-    tag =
-
-""abc"" 
-}
-
-")).
-Eval vm_compute in ("<<<M4195>>>" ++ check (runes_of_ascii "// top
-packet chars {
-    // c2
-}
-
-// c3
 packet MetaDataX {
-    // c6
-    @tag(42)
-    // c9
-    i16 string_,
-    // c12
-    repeat x `say ""hi""`,
-    // c16
+    char[] Logon,
 }
-// c17")).
-Eval vm_compute in ("<<<M2377>>>" ++ check (runes_of_ascii "// c
-packet x { @lengthOf( metadata ) repeat lengthOf
-,a1{
-trueish	,// c
-repeat repeat//	t
-MetaDataX , } , zchar[
-    42	] rootA // `tick` ""quote"" 'q'
-,
-    }
-")).
-Eval vm_compute in ("<<<M531>>>" ++ check (runes_of_ascii "options
-    { // " ++ [27880; 37322]%N ++ runes_of_ascii "
-i64_//x
-= ""1""
-} options {matchKey =
-65535 Header = ""x y"" stringy
-=
-//	t
-// a // b
-true;  } MetaData int {	i8i8
-charz `u8 x,` ,
-    } 	 ")).
-Eval vm_compute in ("<<<M2385>>>" ++ check (runes_of_ascii "// c
-packet x { @lengthOf( metadata ) repeat lengthOf
-,a1{
-trueish	,// c
-repeat//	t
-MetaDataX ` , } , zchar[
-    42	] rootA // `tick` ""quote"" 'q'
-,
-    }
-")).
-Eval vm_compute in ("<<<M2115>>>" ++ check (runes_of_ascii "options{
-_x
-= true
-} options
-{ o o	= /// triple
-false
-    ; chars
-= ""\n"" } root packet	Pad
-/// triple
-// packet A { u8 x, }
-{	chars
-    // a // b
-    ,}")).
-Eval vm_compute in ("<<<M2122>>>" ++ check (runes_of_ascii "options{
-_x
-= true
-} options
-{ o	u8 /// triple
-false
-    ; chars
-= ""\n"" } root packet	Pad
-/// triple
-// packet A { u8 x, }
-{	chars
-    // a // b
-    ,}")).
-Eval vm_compute in ("<<<M2102>>>" ++ check (runes_of_ascii "options{
-_x
-= true
-{ options
-{ o	= /// triple
-false
-    ; chars
-= ""\n"" } root packet	Pad
-/// triple
-// packet A { u8 x, }
-{	chars
-    // a // b
-    ,}")).
-Eval vm_compute in ("<<<M2097>>>" ++ check (runes_of_ascii "options{
-_x
-= i32
-} options
-{ o	= /// triple
-false
-    ; chars
-= ""\n"" } root packet	Pad
-/// triple
-// packet A { u8 x, }
-{	chars
-    // a // b
-    ,}")).
-Eval vm_compute in ("<<<M2386>>>" ++ check (runes_of_ascii "// c
-packet x { @lengthOf( i32 ) repeat lengthOf
-,a1{
-trueish	,// c
-repeat//	t
-MetaDataX , } , zchar[
-    42	] rootA // `tick` ""quote"" 'q'
-,
-    }
-")).
-Eval vm_compute in ("<<<M3585>>>" ++ check (runes_of_ascii "
-packet A
-    { 
-u8	a
-,	} packet
-    B{  u16 b, } root	packet 
-P
-	{ u8  K , match  K
-as M
-	{
 
-[
-
-    1, 2	] :	A	,
-
-3
-    : B ,
-7:
-A  , }  , }
-")).
-Eval vm_compute in ("<<<M973>>>" ++ check (runes_of_ascii "
-options
-{ BodyLength
-= zchar[ 0123456789 ] } options
-{
-asx = ""a\""b"" ;rootA =	char[] roots
-=""{,}"" ; int= ""it's"" // `tick` ""quote"" 'q'
-; }
-")).
-Eval vm_compute in ("<<<M4224>>>" ++ check (runes_of_ascii "
-
-  packet  MetaDataX
-{
-repeat
-
-tag
-
-    i64_ 
-, @calculatedFrom(
-
-    ""packet"" ) 
-	// trailing space 
-	Packet 
-`tab	here`
-    ,
-}
-")).
-Eval vm_compute in ("<<<M4511>>>" ++ check (runes_of_ascii "MetaData options1 {
-    lengthOf As,
-    char[255] crc,
-    char[] leftPad,
-    As leftPad,
-    uint16 u128,
-    f32 x `{ , }`,
-}
-//	t")).
-Eval vm_compute in ("<<<M3562>>>" ++ check (runes_of_ascii "
-options{
-	LittleEndian  =
-true
-; 
-}
-    root  packet P  { u16
-	a
-,
-
-    u32
-    Sum
-
-    @calculatedFrom(
-
-""CRC32"" 
-) , }
-")).
-Eval vm_compute in ("<<<M3021>>>" ++ check (runes_of_ascii "packet A {
-    u16 len @lengthOf(body) `a
-    b
-  c`,
-    u32 crc @calculatedFrom(""CRC32"") `a
-    b
-  c`,
-    string body,
-}")).
-Eval vm_compute in ("<<<M2337>>>" ++ check (runes_of_ascii "// c
-packet x { @lengthOf( metadata ) repeat lengthOf
-,a1{
-trueish	,// c
-repeat//	t
-MetaDataX , } , zchar[
-    42	] root")).
-Eval vm_compute in ("<<<M3342>>>" ++ check (runes_of_ascii "root packet matchKey { zchar[ 3 ] pack @calculatedFrom( ""a	b"" ) `doc` , } options { // c
-} MetaData A { int8 msg_type , }")).
-Eval vm_compute in ("<<<M1475>>>" ++ check (runes_of_ascii "
-packet
-    falsey { Header@calculatedFrom(""packet""  ) , < char[
-    0123456789 ] packetx
-    , } // `tick` ""quote"" 'q'")).
-Eval vm_compute in ("<<<M1404>>>" ++ check (runes_of_ascii "
-packet
-    { falsey Header@calculatedFrom(""packet""  ) , char[
-    0123456789 ] packetx
-    , } // `tick` ""quote"" 'q'")).
-Eval vm_compute in ("<<<M1765>>>" ++ check (runes_of_ascii "options { trueish = ""`tick`"" ; string_= """ ++ [233]%N ++ runes_of_ascii "t" ++ [233]%N ++ runes_of_ascii """
-    // c
-    } root
-    packet body { stringy @calculatedFrom(
-""a	b"" )")).
-Eval vm_compute in ("<<<M2424>>>" ++ check (runes_of_ascii "// c
-packet x { @lengthOf( metadata ) repeat lengthOf
-,a1{
-trueish	,// c
-repeat//	t
-MetaDataX , } , zchar[
-    ")).
-Eval vm_compute in ("<<<M3057>>>" ++ check (runes_of_ascii "packet A {
-    match k as n {
-        ""\
-"" : B,
-        [""\
-"", 1] : C,
-        [1,2,3,4,5,""\
-""] : D,
+root packet MetaDataX {
+    match Z9_ as zchar {
+        7 : zchar,
     },
 }")).
-Eval vm_compute in ("<<<M2965>>>" ++ check (runes_of_ascii "packet A {
-  match k as n {
-    [""a"", ""bb"", ""c c"", ""d"", ""e"", ""f"", ""g"", ""h"", ""i"", ""j""] : B
-    2 : C
-  },
-}")).
-Eval vm_compute in ("<<<M289>>>" ++ check (runes_of_ascii "packet a1 {
-}
-options{
-MetaDataX = ""`tick`"" uint8x = false; f32a = zchar[	00] ; } // `tick` ""quote"" 'q'")).
-Eval vm_compute in ("<<<M3699>>>" ++ check (runes_of_ascii "
-
-  packet
-A {u16 	 // a
-	len // b
-@lengthOf( // c
-
-  body 	 // d
-)  // e
-    `d` // f
-
-	,
-
-    }")).
-Eval vm_compute in ("<<<M379>>>" ++ check (runes_of_ascii "options{zchar=	true
-// c
-/// triple
-BodyLength  = char[]
-; x// " ++ [27880; 37322]%N ++ runes_of_ascii "
-=  char[007 ]
-    ;} /// triple")).
-Eval vm_compute in ("<<<M2967>>>" ++ check (runes_of_ascii "packet A {
-  match k as n {
-    [1, ""bb"", 007, ""d"", 5, ""f"", 7, ""h"", 9, ""j""] : B
-    2 : C
-  },
-}")).
-Eval vm_compute in ("<<<M1396>>>" ++ check (runes_of_ascii "root packet SimpleMessage {
-    uint16 MsgType `" ++ [28040; 24687; 31867; 22411]%N ++ runes_of_ascii "`,
-    string JsonBody `Json" ++ [23383; 31526; 20018; 28040; 24687; 20307]%N ++ runes_of_ascii "`,
-}")).
-Eval vm_compute in ("<<<M2277>>>" ++ check (runes_of_ascii "options
-{ } options { BodyLength= u16 Header= f64 ; u128 =
-    true true
-    ; } // a // b")).
-Eval vm_compute in ("<<<M181>>>" ++ check (runes_of_ascii "MetaData a1 { Foo body
-`{ , }`
-    , int32
-int`` ,i32 a1 `" ++ [28040; 24687; 31867; 22411]%N ++ runes_of_ascii "`
-, int8 msg_type `` , }
-
-")).
-Eval vm_compute in ("<<<M3290>>>" ++ check (runes_of_ascii "MetaData float { float64 charz `
-` , } root packet chars
-// c
-{ @rightPad ( '0' ) Foo , }")).
-Eval vm_compute in ("<<<M3501>>>" ++ check (runes_of_ascii "packet chars { } packet MetaDataX { @tag( 42 // c
-) i16 string_ , repeat x `say ""hi""` , }")).
-Eval vm_compute in ("<<<M2282>>>" ++ check (runes_of_ascii "options
-{ } options { BodyLength= u16 Header= f64 ; u128 =
-    true
-    ; ; } // a // b")).
-Eval vm_compute in ("<<<M3020>>>" ++ check (runes_of_ascii "packet A {
-    B b `a
-    b
-  c`,
-    B `a
-    b
-  c`,
-    repeat B bs `a
-    b
-  c`,
-}")).
-Eval vm_compute in ("<<<M2283>>>" ++ check (runes_of_ascii "options
-{ } options { BodyLength= u16 Header= f64 ; u128 =
-    true
-    } ; // a // b")).
-Eval vm_compute in ("<<<M3241>>>" ++ check (runes_of_ascii "packet metadata { Logon { A `" ++ [28040; 24687; 31867; 22411]%N ++ runes_of_ascii "` , tag o , } , zchar len // c
-`// not a comment` , }")).
-Eval vm_compute in ("<<<M3432>>>" ++ check (runes_of_ascii "packet o
-// c
-{ repeat Logon uint8x , } options { asx = zchar[ 3 ] stringy = '\x00' }")).
-Eval vm_compute in ("<<<M3464>>>" ++ check (runes_of_ascii "packet o { repeat Logon uint8x , } options { asx = zchar[ 3 ] stringy = '\x00'
-// c
-}")).
-Eval vm_compute in ("<<<M2928>>>" ++ check (runes_of_ascii "packet A {
-  match k as n {
-    [1, ""bb"", 007, ""d"", 5, ""f"", 7] : B
-    2 : C
-  },
-}")).
-Eval vm_compute in ("<<<M3407>>>" ++ check (runes_of_ascii "MetaData body { i64 pack `it's` ,
-// c
-} packet stringy { int16 calculatedFrom , }")).
-Eval vm_compute in ("<<<M3907>>>" ++ check (runes_of_ascii "MetaData Packet {
+Eval vm_compute in ("<<<M1904>>>" ++ check (runes_of_ascii "packet Logon {
+    stringy crc `crlf
+    line`,
+    T @calculatedFrom(""a\""b"") `u8 x,`,
 }
 
 options {
-    Z9_ = char[];
-    _x = '0';
-    body = false
+    leftPad = '\x00'
 }")).
-Eval vm_compute in ("<<<M415>>>" ++ check (runes_of_ascii "MetaData T { char[] packetx //	t
-,//
-Packet
-    u ,i32 _x , uint16
-    asx, }
+Eval vm_compute in ("<<<M1245>>>" ++ check (runes_of_ascii "root packet matchKey { zchar[ 3 ] pack @calculatedFrom( ""a	b"" ) `doc` // c
+, } options { } MetaData A { int8 msg_type , }")).
+Eval vm_compute in ("<<<M1882>>>" ++ check (runes_of_ascii "packet A {
+    Inner {
+        u8 x `x
+        `,
+        Deep {
+            u8 y `x
+            `,
+        },
+    },
+}")).
+Eval vm_compute in ("<<<M1832>>>" ++ check (runes_of_ascii "packet
+A  {
+
+match  k
+
+    as
+    n
+
+{ [ ""a""
+	,	""bb""
+    , 007
+, ""d""	, ""e"",  66 
+] :
+    B	,
+2
+
+    :
+C
+}, }")).
+Eval vm_compute in ("<<<M47>>>" ++ check (runes_of_ascii "options
+{ options1= uint64 ;	}
+root packet /// triple
+T {MetaDataX//x
+`// not a comment` , } packet crc {}
 ")).
-Eval vm_compute in ("<<<M1307>>>" ++ check (runes_of_ascii "options // `tick` ""quote"" 'q'
-{ stringy='\x00'  ;
-msg_type
-= float32
+Eval vm_compute in ("<<<M1684>>>" ++ check (runes_of_ascii "  MetaData float {  float64 charz  `
+`
+
+,	} root packet
+	chars  {  @rightPad (
+    '0') Foo
+,
 }
 
+// c
 ")).
-Eval vm_compute in ("<<<M738>>>" ++ check (runes_of_ascii "MetaData Foo { char[ 4294967296  ] BodyLength
-    //
-    `tab	here`
-, }
-")).
-Eval vm_compute in ("<<<M2877>>>" ++ check (runes_of_ascii "packet A {
+Eval vm_compute in ("<<<M884>>>" ++ check (runes_of_ascii "packet A {
   match k as n {
-    [""a"", 22, ""c c""] : B,
+    [""a"", ""bb"", 007, ""d"", ""e"", 66, ""g"", ""h"", 9, ""j""] : B
     2 : C
   },
 }")).
-Eval vm_compute in ("<<<M552>>>" ++ check (runes_of_ascii "  options{ i8i8 = true// " ++ [128512]%N ++ runes_of_ascii " emoji
-chars = 42
-    /// triple
-    ; }
-")).
-Eval vm_compute in ("<<<M3815>>>" ++ check (runes_of_ascii "
-root
-
-    packet
-
-u128
-
-{ char[
-
-    007  ] 
-MetaDataX ,	}
-")).
-Eval vm_compute in ("<<<M235>>>" ++ check (runes_of_ascii "// " ++ [128512]%N ++ runes_of_ascii " emoji
-options {repeatCount = u32 ;tag = ' ' ; } // a // b")).
-Eval vm_compute in ("<<<M3946>>>" ++ check (runes_of_ascii "packet pack {
-    //	t
-    repeat zchar As,
-    i16 roots,
+Eval vm_compute in ("<<<M899>>>" ++ check (runes_of_ascii "packet A {
+  match k as n {
+    [1, 22, 007, 4, 5, 66, 7, 8, 9, 10, 11, 12] : B,
+    2 : C
+  },
 }")).
-Eval vm_compute in ("<<<M3366>>>" ++ check (runes_of_ascii "packet
+Eval vm_compute in ("<<<M882>>>" ++ check (runes_of_ascii "packet A {
+  match k as n {
+    [1, 22, ""c c"", 4, 5, ""f"", 7, 8, ""i"", 10] : B
+    2 : C
+  },
+}")).
+Eval vm_compute in ("<<<M2060>>>" ++ check (runes_of_ascii "packet x_y_z {
+    @tag(00)
+    @tag(7)
+    @leftPad()
+    int16 _x @lengthOf(u) `it's`,
+}")).
+Eval vm_compute in ("<<<M1204>>>" ++ check (runes_of_ascii "MetaData float { float64 charz `
+` , } root packet chars { @rightPad // c
+( '0' ) Foo , }")).
+Eval vm_compute in ("<<<M1415>>>" ++ check (runes_of_ascii "packet chars { } packet MetaDataX { @tag( 42 )
 // c
-x { @rightPad ( ) repeat roots Logon `doc` , }")).
-Eval vm_compute in ("<<<M3181>>>" ++ check (runes_of_ascii "packet A {
+i16 string_ , repeat x `say ""hi""` , }")).
+Eval vm_compute in ("<<<M1158>>>" ++ check (runes_of_ascii "packet metadata { Logon { A `" ++ [28040; 24687; 31867; 22411]%N ++ runes_of_ascii "` , tag o , } , zchar len `// not a comment` , } // c
+")).
+Eval vm_compute in ("<<<M1145>>>" ++ check (runes_of_ascii "packet metadata { Logon { A `" ++ [28040; 24687; 31867; 22411]%N ++ runes_of_ascii "` , tag o ,
+// c
+} , zchar len `// not a comment` , }")).
+Eval vm_compute in ("<<<M1350>>>" ++ check (runes_of_ascii "packet o { repeat Logon uint8x // c
+, } options { asx = zchar[ 3 ] stringy = '\x00' }")).
+Eval vm_compute in ("<<<M838>>>" ++ check (runes_of_ascii "packet A {
+  match k as n {
+    [1, ""bb"", 007, ""d"", 5, ""f"", 7] : B,
+    2 : C
+  },
+}")).
+Eval vm_compute in ("<<<M1311>>>" ++ check (runes_of_ascii "MetaData body { i64 // c
+pack `it's` , } packet stringy { int16 calculatedFrom , }")).
+Eval vm_compute in ("<<<M1585>>>" ++ check (runes_of_ascii "packet A {
     match k as n {
-        1 : B,// c
+        [1, 22, ""c c""] : B,
+        2 : C,
     },
 }")).
-Eval vm_compute in ("<<<M263>>>" ++ check (runes_of_ascii "root
-packet i8i8 { @lengthOf(
-Packet)
-    u32 u8x, }")).
-Eval vm_compute in ("<<<M3779>>>" ++ check (runes_of_ascii "options
-    { a
-=
-    1	// c
-
-b	=
-
-2
-;// d
-    } ")).
-Eval vm_compute in ("<<<M3029>>>" ++ check (runes_of_ascii "MetaData M {
-    u8 x `a
-
-b`,
-    T t `a
-
-b`,
-}")).
-Eval vm_compute in ("<<<M2843>>>" ++ check (runes_of_ascii ", float32 int8 `" ++ [233]%N ++ runes_of_ascii "` char[] } { u16 { options }")).
-Eval vm_compute in ("<<<M1199>>>" ++ check (runes_of_ascii "
-MetaData u8x { msg_type
-    matchKey, }
-")).
-Eval vm_compute in ("<<<M3187>>>" ++ check (runes_of_ascii "// c
-root packet u128 { chars `it's` , }")).
-Eval vm_compute in ("<<<M4165>>>" ++ check (runes_of_ascii "MetaData x {
-    int32 a1 `say ""hi""`,
-}")).
-Eval vm_compute in ("<<<M2605>>>" ++ check (runes_of_ascii "packet A { match k as n { 1 : B }, }")).
-Eval vm_compute in ("<<<M2783>>>" ++ check ([14]%N ++ runes_of_ascii "2" ++ [65533; 12]%N ++ runes_of_ascii "p[kGJ" ++ [1244; 65533; 65533]%N ++ runes_of_ascii "_*Q`" ++ [65533; 6; 65533]%N ++ runes_of_ascii "VT;" ++ [65533; 65533; 65533]%N ++ runes_of_ascii "85:r" ++ [65533]%N ++ runes_of_ascii "V" ++ [65533; 65533; 65533; 65533]%N)).
-Eval vm_compute in ("<<<M1501>>>" ++ check (runes_of_ascii "packet
+Eval vm_compute in ("<<<M413>>>" ++ check (runes_of_ascii "packet
+    // `tick` ""quote"" 'q'
+    crc
+// packet A { u8 x, }
 //	t
-// trailing space 
-_x")).
-Eval vm_compute in ("<<<M3909>>>" ++ check (runes_of_ascii "packet A {
-    u8 x `d" ++ [8202]%N ++ runes_of_ascii "`,// c" ++ [8202]%N ++ runes_of_ascii "
-}")).
-Eval vm_compute in ("<<<M2761>>>" ++ check (runes_of_ascii "@rightPad ( ) float64 root u64")).
-Eval vm_compute in ("<<<M3007>>>" ++ check (runes_of_ascii "packet A {
-    u8 x `a
-b`,
-}")).
-Eval vm_compute in ("<<<M2712>>>" ++ check (runes_of_ascii """1"" char u32 @rightPad int8")).
-Eval vm_compute in ("<<<M11>>>" ++ check (runes_of_ascii "options { falsey
-= false}")).
-Eval vm_compute in ("<<<M990>>>" ++ check (runes_of_ascii "
-root packet
-zchar {	}
+{
+u32 a1")).
+Eval vm_compute in ("<<<M355>>>" ++ check (runes_of_ascii "options { leftPad= int32 // packet A { u8 x, }
+}
+// packet A { u8 x, }
 ")).
-Eval vm_compute in ("<<<M815>>>" ++ check (runes_of_ascii " // packet A { u8 x, }")).
-Eval vm_compute in ("<<<M1031>>>" ++ check (runes_of_ascii "root packet u128 { }")).
-Eval vm_compute in ("<<<M2574>>>" ++ check (runes_of_ascii "packet A { x `d`, }")).
-Eval vm_compute in ("<<<M2725>>>" ++ check (runes_of_ascii "Sq]fX""YE68*gwilIN=")).
-Eval vm_compute in ("<<<M3136>>>" ++ check (runes_of_ascii "// c" ++ [65279]%N ++ runes_of_ascii "
+Eval vm_compute in ("<<<M1888>>>" ++ check (runes_of_ascii "  root
+packet P
+{ repeat
+
+string
+    ss, repeat	u16
+
+    ns
+
+,	}
+")).
+Eval vm_compute in ("<<<M2080>>>" ++ check (runes_of_ascii "MetaData M {
+    u8 x `a
+    
+    b`,
+    T t `a
+    
+    b`,
+}")).
+Eval vm_compute in ("<<<M742>>>" ++ check (runes_of_ascii "char i8 false int8 match @rightPad uint32 int64 '0' zchar[")).
+Eval vm_compute in ("<<<M794>>>" ++ check (runes_of_ascii "packet A { Inner { match k as n { [1,22,007] : B, }, }, }")).
+Eval vm_compute in ("<<<M1818>>>" ++ check (runes_of_ascii "options {
+    a = ""x\
+    y"";
+    b = ""x\
+    y""
+}")).
+Eval vm_compute in ("<<<M2076>>>" ++ check (runes_of_ascii "packet A {
+    u8 x `a
+        
+        b`,
+}")).
+Eval vm_compute in ("<<<M1098>>>" ++ check (runes_of_ascii "// c
+root packet u128 { chars `it's` , }")).
+Eval vm_compute in ("<<<M1070>>>" ++ check (runes_of_ascii "MetaData M {
+}// c
+MetaData N {
+}// d")).
+Eval vm_compute in ("<<<M754>>>" ++ check (runes_of_ascii "string } zchar[ options uint64 ,")).
+Eval vm_compute in ("<<<M1028>>>" ++ check (runes_of_ascii "packet A {
+ u8 x `d" ++ [11]%N ++ runes_of_ascii "`, // c" ++ [11]%N ++ runes_of_ascii "
+}")).
+Eval vm_compute in ("<<<M732>>>" ++ check ([65533; 65533]%N ++ runes_of_ascii "s" ++ [65533]%N ++ runes_of_ascii "a3" ++ [65533]%N ++ runes_of_ascii "" ++ [65533]%N ++ runes_of_ascii "J" ++ [65533; 1152; 65533]%N ++ runes_of_ascii "1" ++ [12]%N ++ runes_of_ascii "y_" ++ [65533; 65533; 65533; 65533; 65533]%N ++ runes_of_ascii "6" ++ [65533; 65533; 20]%N)).
+Eval vm_compute in ("<<<M214>>>" ++ check (runes_of_ascii "  root packet charz{}")).
+Eval vm_compute in ("<<<M972>>>" ++ check (runes_of_ascii "// c 
 packet A {
 }")).
-Eval vm_compute in ("<<<M3103>>>" ++ check (runes_of_ascii "packet A {
-}// c" ++ [8239]%N)).
-Eval vm_compute in ("<<<M2494>>>" ++ check (runes_of_ascii "@calculatedFrom")).
-Eval vm_compute in ("<<<M929>>>" ++ check (runes_of_ascii "
-// " ++ [128512]%N ++ runes_of_ascii " emoji
+Eval vm_compute in ("<<<M1054>>>" ++ check (runes_of_ascii "packet A {
+}// c x")).
+Eval vm_compute in ("<<<M1066>>>" ++ check (runes_of_ascii "packet A {
+}
+
+
 ")).
-Eval vm_compute in ("<<<M2636>>>" ++ check (runes_of_ascii "packet A {")).
-Eval vm_compute in ("<<<M1406>>>" ++ check (runes_of_ascii "
-packet")).
-Eval vm_compute in ("<<<M2722>>>" ++ check (runes_of_ascii "w""Bn;m")).
-Eval vm_compute in ("<<<M3069>>>" ++ check (runes_of_ascii "// c" ++ [160]%N)).
-Eval vm_compute in ("<<<M2523>>>" ++ check (runes_of_ascii "`
-`")).
-Eval vm_compute in ("<<<M2532>>>" ++ check (runes_of_ascii "a-b")).
-Eval vm_compute in ("<<<M2536>>>" ++ check (runes_of_ascii "__")).
-Eval vm_compute in ("<<<M111>>>" ++ check (@nil rune)).
+Eval vm_compute in ("<<<M1035>>>" ++ check (runes_of_ascii "// c 	")).
+Eval vm_compute in ("<<<M724>>>" ++ check (runes_of_ascii "		")).
